@@ -107,6 +107,7 @@ Lemma dispatched_app a b : dispatched (a ++ b) = dispatched a ++ dispatched b. P
 Lemma seen_outs_app a b : seen_outs (a ++ b) = seen_outs a ++ seen_outs b. Proof. apply flat_map_app. Qed.
 Lemma empties_app a b : empties (a ++ b) = empties a ++ empties b. Proof. apply flat_map_app. Qed.
 Lemma changes_app a b : changes (a ++ b) = changes a ++ changes b. Proof. apply filter_app. Qed.
+Lemma fed_cons_feed m t : fed (TFeed m :: t) = m :: fed t. Proof. reflexivity. Qed.
 Lemma fed_outs o : fed (map TOut o) = [].
 Proof. induction o; simpl; auto. Qed.
 
@@ -294,9 +295,17 @@ Proof.
   inversion H; subst. apply IH in E. simpl in E. assumption.
 Qed.
 
+Lemma astep_send_with_ob cfg st p b ct mt added pend now : dead st = false ->
+  astep cfg (mkG (with_ob st p (mkOB b ct mt)) added pend) (ASend p (Some now)) =
+  Some (mkG (with_ob (sent_state cfg st b) p (mkOB (new_batch (c_kind cfg) p) now now)) added pend,
+        map TOut (seen_part st ++ [sent_body cfg st b])).
+Proof.
+  intros Hd. unfold astep. simpl. rewrite Hd, aget_aset, String.eqb_refl. simpl.
+  unfold with_ob, set_open, sent_state. simpl. rewrite aset_aset. reflexivity.
+Qed.
+
 Lemma add_to_batch_refines cfg now : forall fuel st b m st3 b3 s o3 ct mt added,
   add_to_batch fuel cfg st b m = (st3, b3, s, o3) -> ok_status s = true -> dead st = false ->
-  b_pkey b = m_pkey m ->
   let fresh := negb (match o3 with [] => true | _ => false end) in
   exists acts,
     arun cfg (mkG (with_ob st (m_pkey m) (mkOB b ct mt)) added (Some m)) acts =
@@ -305,7 +314,7 @@ Lemma add_to_batch_refines cfg now : forall fuel st b m st3 b3 s o3 ct mt added,
                           (match s with SOk => now | _ => if fresh then now else mt end)) (open st3)))
               (added ++ [m]) None, map TOut o3).
 Proof.
-  induction fuel as [|f IH]; intros st b m st3 b3 s o3 ct mt added H Hs Hd Hpk fresh.
+  induction fuel as [|f IH]; intros st b m st3 b3 s o3 ct mt added H Hs Hd fresh.
   - (* no fuel left: only the direct results *)
     simpl in H. destruct (add (c_limits cfg) b m) as [b' r] eqn:Ha.
     exists [AAdd now]. apply arun_one. unfold astep. simpl. rewrite Hd. rewrite aget_aset, String.eqb_refl. simpl.
@@ -321,20 +330,1998 @@ Proof.
       destruct (add_to_batch f cfg (sent_state cfg st b) (new_batch (c_kind cfg) (m_pkey m)) m)
         as [[[st2 b2] s2] o2] eqn:E.
       inversion H; subst. clear H.
-      destruct (IH _ _ _ _ _ _ _ now now added E Hs Hd eq_refl) as [acts Hacts].
+      destruct (IH _ _ _ _ _ _ _ now now added E Hs Hd) as [acts Hacts].
       exists (ASend (m_pkey m) (Some now) :: acts).
-      simpl arun. unfold astep. simpl g_st. simpl dead. rewrite Hd.
-      simpl open. rewrite aget_aset, String.eqb_refl. simpl ob_batch.
-      match goal with |- match (match ?X with _ => _ end) with _ => _ end = _ =>
-        replace X with (Some (mkG (with_ob (sent_state cfg st b) (m_pkey m) (mkOB (new_batch (c_kind cfg) (m_pkey m)) now now))
-                                  added (Some m),
-                              map TOut (seen_part st ++ [sent_body cfg st b]))) end.
-      * rewrite Hacts. f_equal. f_equal.
-        -- f_equal. f_equal. f_equal.
-           ++ subst fresh. destruct (seen_part st); simpl; destruct o2; reflexivity.
-           ++ subst fresh. destruct s2; try reflexivity; destruct (seen_part st); simpl; destruct o2; reflexivity.
-        -- now rewrite map_app.
-      * f_equal. f_equal. f_equal. unfold with_ob, set_open. simpl. now rewrite aset_aset.
+      cbn [arun]. rewrite astep_send_with_ob by assumption. rewrite Hacts.
+      f_equal. f_equal.
+      * f_equal. f_equal. f_equal. f_equal.
+        -- subst fresh. destruct (seen_part st); simpl; destruct o2; reflexivity.
+        -- subst fresh. destruct s; try reflexivity; destruct (seen_part st); simpl; destruct o2; reflexivity.
+      * symmetry. apply map_app.
     + exists [AAdd now]. apply arun_one. unfold astep. simpl. rewrite Hd. rewrite aget_aset, String.eqb_refl. simpl.
       rewrite Ha. inversion H; subst. simpl. rewrite aset_aset. reflexivity.
 Qed.
+
+(* ---------- refinement: one received message ---------- *)
+Definition cur_ob (cfg : bcfg) (st : bstate) (now : Z) (pk : string) : obatch :=
+  match aget pk (open st) with Some ob => ob | None => mkOB (new_batch (c_kind cfg) pk) now now end.
+
+Lemma bstep_msg_eq cfg st now m : dead st = false ->
+  bstep_msg cfg st now m =
+  let pk := m_pkey m in
+  let st1 := feed_state cfg st now m in
+  let ob0 := cur_ob cfg st now pk in
+  let '(st2, ob2, o2) :=
+    if is_full (c_limits cfg) (ob_batch ob0)
+    then let '(s, o) := send_batch cfg st1 (ob_batch ob0) in
+         let ob := mkOB (new_batch (c_kind cfg) pk) now now in
+         (set_open s (aset pk ob (open s)), ob, o)
+    else (st1, ob0, []) in
+  if has_fatal o2
+  then (mkBst (open st2) (seenl st2) (total st2) (curkey st2) (rr st2) (drops_big st2) (drops_invalid st2) true, o2) else
+  if is_marker m then (st2, o2) else
+  let '(st3, b3, status, o3) := add_to_batch 2 cfg st2 (ob_batch ob2) m in
+  let fresh := negb (match o3 with [] => true | _ => false end) in
+  let ob3 := mkOB b3 (if fresh then now else ob_ctime ob2)
+                     (match status with SOk => now | _ => if fresh then now else ob_mtime ob2 end) in
+  let st4 := set_open st3 (aset pk ob3 (open st3)) in
+  match status with
+  | SFatal | SNoFuel => (mkBst (open st4) (seenl st4) (total st4) (curkey st4) (rr st4) (drops_big st4) (drops_invalid st4) true,
+                         o2 ++ o3 ++ [OFatal])
+  | _ => (mkBst (open st4) (seenl st4) (total st4 + 1) (curkey st4) (rr st4) (drops_big st4) (drops_invalid st4) false, o2 ++ o3)
+  end.
+Proof.
+  intros Hd. unfold bstep_msg, feed_state, cur_ob, has_fatal. rewrite Hd.
+  destruct (aget (m_pkey m) (open st)); destruct (String.eqb (curkey st) (m_key m)); reflexivity.
+Qed.
+
+Lemma feed_state_aget cfg st now m :
+  aget (m_pkey m) (open (feed_state cfg st now m)) = Some (cur_ob cfg st now (m_pkey m)).
+Proof.
+  unfold feed_state, cur_ob. simpl. destruct (aget (m_pkey m) (open st)) eqn:E; [assumption|].
+  now rewrite aget_aset, String.eqb_refl.
+Qed.
+
+Lemma obatch_eta ob : ob = mkOB (ob_batch ob) (ob_ctime ob) (ob_mtime ob).
+Proof. destruct ob; reflexivity. Qed.
+
+Lemma bstep_msg_refines cfg st now m st' o added :
+  workers_ok cfg -> dead st = false -> bstep_msg cfg st now m = (st', o) -> dead st' = false ->
+  exists acts, arun cfg (mkG st added None) acts =
+               Some (mkG st' (added ++ changes [m]) None, TFeed m :: map TOut o).
+Proof.
+  intros Hw Hd H Hd'. rewrite bstep_msg_eq in H by assumption. cbv zeta in H.
+  (* the feed action *)
+  assert (Hfeed : astep cfg (mkG st added None) (AFeed now m) =
+                  Some (mkG (feed_state cfg st now m) added (if is_marker m then None else Some m), [TFeed m])).
+  { unfold astep. simpl. now rewrite Hd. }
+  set (st1 := feed_state cfg st now m) in *.
+  set (ob0 := cur_ob cfg st now (m_pkey m)) in *.
+  pose proof (feed_state_aget cfg st now m) as Hg0. fold st1 ob0 in Hg0.
+  assert (Hd1 : dead st1 = false) by reflexivity.
+  (* phase 1: a full batch is sent and replaced *)
+  assert (Hph1 : exists st2 ob2 o2 acts1,
+            (if is_full (c_limits cfg) (ob_batch ob0)
+             then let '(s, o) := send_batch cfg st1 (ob_batch ob0) in
+                  (set_open s (aset (m_pkey m) (mkOB (new_batch (c_kind cfg) (m_pkey m)) now now) (open s)),
+                   mkOB (new_batch (c_kind cfg) (m_pkey m)) now now, o)
+             else (st1, ob0, [])) = (st2, ob2, o2) /\
+            has_fatal o2 = false /\ dead st2 = false /\ aget (m_pkey m) (open st2) = Some ob2 /\
+            forall pend, arun cfg (mkG st1 added pend) acts1 = Some (mkG st2 added pend, map TOut o2)).
+  { destruct (is_full (c_limits cfg) (ob_batch ob0)).
+    - rewrite send_batch_spec. do 3 eexists. exists [ASend (m_pkey m) (Some now)].
+      split; [reflexivity|]. split; [now apply send_no_fatal|]. split; [reflexivity|].
+      split; [simpl; now rewrite aget_aset, String.eqb_refl|].
+      intros pend. apply arun_one. unfold astep. simpl g_st. rewrite Hd1, Hg0. reflexivity.
+    - exists st1, ob0, [], []. repeat split; auto. }
+  destruct Hph1 as (st2 & ob2 & o2 & acts1 & E1 & Hnf & Hd2 & Hg2 & Hrun1).
+  rewrite E1 in H. rewrite Hnf in H.
+  destruct (is_marker m) eqn:Hm.
+  - (* BEGIN / COMMIT *)
+    inversion H; subst. exists (AFeed now m :: acts1).
+    cbn [arun]. rewrite Hfeed, Hrun1. unfold changes, change. simpl. rewrite Hm. simpl.
+    now rewrite app_nil_r.
+  - destruct (add_to_batch 2 cfg st2 (ob_batch ob2) m) as [[[st3 b3] status] o3] eqn:E3.
+    destruct (ok_status status) eqn:Hs.
+    2:{ destruct status; try discriminate; inversion H; subst; discriminate. }
+    pose proof (add_to_batch_refines cfg now 2 st2 (ob_batch ob2) m st3 b3 status o3
+                  (ob_ctime ob2) (ob_mtime ob2) added E3 Hs Hd2) as Hr.
+    rewrite <- obatch_eta in Hr. rewrite (with_ob_same _ _ _ Hg2) in Hr.
+    assert (Hst' : st' = finish st3 (aset (m_pkey m)
+               (mkOB b3 (if negb (match o3 with [] => true | _ => false end) then now else ob_ctime ob2)
+                        (match status with SOk => now
+                         | _ => if negb (match o3 with [] => true | _ => false end) then now else ob_mtime ob2 end))
+               (open st3)) /\ o = o2 ++ o3).
+    { destruct status; try discriminate; inversion H; subst; split; reflexivity. }
+    destruct Hst' as [-> ->]. cbv zeta in Hr. destruct Hr as [acts2 Hr].
+    exists (AFeed now m :: acts1 ++ acts2). cbn [arun]. rewrite Hfeed.
+    rewrite (arun_app _ _ _ _ _ _ _ _ (Hrun1 (Some m)) Hr).
+    unfold changes, change. simpl. rewrite Hm. simpl. now rewrite map_app.
+Qed.
+
+(* ---------- refinement: tick ---------- *)
+Lemma flush_keys_refines cfg added pend : workers_ok cfg -> forall ks st st' o,
+  dead st = false -> flush_keys cfg st ks = (st', o) ->
+  dead st' = false /\
+  exists acts, arun cfg (mkG st added pend) acts = Some (mkG st' added pend, map TOut o).
+Proof.
+  intros Hw. induction ks as [|k r IH]; intros st st' o Hd H; simpl in H.
+  - inversion H; subst. split; [assumption|]. exists []. reflexivity.
+  - destruct (aget k (open st)) as [ob|] eqn:Hg; [|eauto].
+    rewrite send_batch_spec in H.
+    change (existsb _ ?x) with (has_fatal x) in H. rewrite send_no_fatal in H by assumption.
+    destruct (flush_keys cfg (set_open (sent_state cfg st (ob_batch ob)) (adel k (open (sent_state cfg st (ob_batch ob))))) r)
+      as [st2 o2] eqn:E.
+    inversion H; subst. apply IH in E; [|exact Hd]. destruct E as [Hd2 [acts Hacts]].
+    split; [assumption|]. exists (ASend k None :: acts). cbn [arun].
+    unfold astep at 1. simpl g_st. rewrite Hd, Hg. cbv zeta. simpl g_added. simpl g_pend.
+    rewrite Hacts. f_equal. f_equal. symmetry. apply map_app.
+Qed.
+
+Lemma bstep_tick_refines cfg st now order pops st' o added :
+  workers_ok cfg -> dead st = false -> bstep_tick cfg st now order pops = Some (st', o) ->
+  dead st' = false /\
+  exists acts, arun cfg (mkG st added None) acts = Some (mkG st' added None, map TOut o).
+Proof.
+  intros Hw Hd H. unfold bstep_tick in H. rewrite Hd in H.
+  destruct (negb (is_perm_of_keys order st)); [discriminate|].
+  destruct (mem_flush _ cfg st _ _ pops) as [mf|]; [|discriminate].
+  inversion H as [H1]. eapply flush_keys_refines; eauto.
+Qed.
+
+(* ---------- refinement: whole runs ---------- *)
+Lemma bstep_dead cfg st e : dead st = true -> bstep cfg st e = (st, []).
+Proof.
+  intros Hd. destruct e; simpl.
+  - now rewrite Hd.
+  - unfold bstep_tick. now rewrite Hd.
+Qed.
+
+Lemma brun_dead cfg evs : forall st, dead st = true -> brun cfg st evs = (st, []).
+Proof.
+  induction evs as [|e r IH]; intros st Hd; simpl; [reflexivity|].
+  rewrite bstep_dead by assumption. now rewrite IH.
+Qed.
+
+Lemma brun_refines cfg : workers_ok cfg -> forall evs st st' t added,
+  brun cfg st evs = (st', t) -> dead st' = false ->
+  exists acts, arun cfg (mkG st added None) acts = Some (mkG st' (added ++ changes (fed t)) None, t).
+Proof.
+  intros Hw. induction evs as [|e r IH]; intros st st' t added H Hd'; simpl in H.
+  - inversion H; subst. exists []. simpl. now rewrite app_nil_r.
+  - destruct (bstep cfg st e) as [st1 t1] eqn:E1. destruct (brun cfg st1 r) as [st2 t2] eqn:E2.
+    inversion H; subst. clear H.
+    destruct (dead st1) eqn:Hd1.
+    { rewrite brun_dead in E2 by assumption. inversion E2; subst. congruence. }
+    destruct (dead st) eqn:Hd.
+    { rewrite bstep_dead in E1 by assumption. inversion E1; subst. congruence. }
+    assert (Hstep : exists acts1, arun cfg (mkG st added None) acts1 =
+                                  Some (mkG st1 (added ++ changes (fed t1)) None, t1)).
+    { destruct e as [now m|now order pops]; simpl in E1.
+      - rewrite Hd in E1. destruct (bstep_msg cfg st now m) as [sx ox] eqn:Em. inversion E1; subst.
+        destruct (bstep_msg_refines cfg st now m st1 ox added Hw Hd Em Hd1) as [acts Ha].
+        exists acts. rewrite Ha. now rewrite fed_cons_feed, fed_outs.
+      - destruct (bstep_tick cfg st now order pops) as [[sx ox]|] eqn:Et.
+        + inversion E1; subst.
+          destruct (bstep_tick_refines cfg st now order pops st1 ox added Hw Hd Et) as [_ [acts Ha]].
+          exists acts. rewrite Ha. rewrite fed_outs. simpl. now rewrite app_nil_r.
+        + inversion E1; subst. exists []. simpl. now rewrite app_nil_r. }
+    destruct Hstep as [acts1 H1].
+    destruct (IH _ _ _ (added ++ changes (fed t1)) E2 Hd') as [acts2 H2].
+    exists (acts1 ++ acts2). rewrite (arun_app _ _ _ _ _ _ _ _ H1 H2).
+    now rewrite fed_app, changes_app, app_assoc.
+Qed.
+
+Definition ginit : gstate := mkG binit [] None.
+
+(* every run of the model that does not end dead is a run of the action machine *)
+Lemma brun_machine cfg evs st t :
+  workers_ok cfg -> brun cfg binit evs = (st, t) -> dead st = false ->
+  exists acts, arun cfg ginit acts = Some (mkG st (changes (fed t)) None, t).
+Proof. intros Hw H Hd. apply (brun_refines cfg Hw evs binit st t [] H Hd). Qed.
+
+(* ================= invariants of the action machine ================= *)
+
+Definition final_res (r : add_result) : bool := match r with AOk | ATooBig | AInvalid => true | _ => false end.
+Definition bump_for (r : add_result) (st : bstate) : bstate :=
+  match r with ATooBig => bump_big st | AInvalid => bump_invalid st | _ => st end.
+Definition olist {A} (o : option A) : list A := match o with Some x => [x] | None => [] end.
+
+(* the three ways a step can be taken, in a form convenient for invariant proofs *)
+Lemma astep_cases cfg g a g' t' : astep cfg g a = Some (g', t') ->
+  dead (g_st g) = false /\
+  ((exists now m, a = AFeed now m /\ g_pend g = None /\
+       g' = mkG (feed_state cfg (g_st g) now m) (g_added g) (if is_marker m then None else Some m) /\
+       t' = [TFeed m])
+   \/
+   (exists p repl ob, a = ASend p repl /\ aget p (open (g_st g)) = Some ob /\
+       g' = mkG (set_open (sent_state cfg (g_st g) (ob_batch ob))
+                   (match repl with
+                    | Some now => aset p (mkOB (new_batch (c_kind cfg) p) now now) (open (g_st g))
+                    | None => adel p (open (g_st g))
+                    end)) (g_added g) (g_pend g) /\
+       t' = map TOut (seen_part (g_st g) ++ [sent_body cfg (g_st g) (ob_batch ob)]))
+   \/
+   (exists now m ob b' r, a = AAdd now /\ g_pend g = Some m /\
+       aget (m_pkey m) (open (g_st g)) = Some ob /\
+       add (c_limits cfg) (ob_batch ob) m = (b', r) /\ final_res r = true /\
+       g' = mkG (finish (bump_for r (g_st g))
+                   (aset (m_pkey m) (mkOB b' (ob_ctime ob) (match r with AOk => now | _ => ob_mtime ob end))
+                         (open (g_st g))))
+                (g_added g ++ [m]) None /\
+       t' = [])).
+Proof.
+  unfold astep. destruct (dead (g_st g)) eqn:Hd; [discriminate|]. intros H. split; [reflexivity|].
+  destruct a as [now m|p repl|now].
+  - left. destruct (g_pend g); [discriminate|]. inversion H; subst. eauto 8.
+  - right; left. destruct (aget p (open (g_st g))) as [ob|] eqn:Hg; [|discriminate].
+    inversion H; subst. exists p, repl, ob. auto.
+  - right; right. destruct (g_pend g) as [m|]; [|discriminate].
+    destruct (aget (m_pkey m) (open (g_st g))) as [ob|] eqn:Hg; [|discriminate].
+    destruct (add (c_limits cfg) (ob_batch ob) m) as [b' r] eqn:Ha.
+    exists now, m, ob, b', r. destruct r; try discriminate; inversion H; subst; auto 10.
+Qed.
+
+(* what a send contributes to the projections of the trace *)
+Lemma seen_outs_send cfg st b : seen_outs (map TOut (seen_part st ++ [sent_body cfg st b])) = seenl st.
+Proof.
+  unfold seen_part, sent_body. destruct (seenl st); simpl; destruct (is_empty b); simpl;
+    try destruct (route cfg st b); simpl; rewrite ?app_nil_r; reflexivity.
+Qed.
+Lemma dispatched_send cfg st b :
+  dispatched (map TOut (seen_part st ++ [sent_body cfg st b])) =
+  if is_empty b then [] else match route cfg st b with Some w => [(w, b)] | None => [] end.
+Proof.
+  unfold seen_part, sent_body. destruct (seenl st); simpl; destruct (is_empty b); simpl;
+    try destruct (route cfg st b); reflexivity.
+Qed.
+Lemma empties_send cfg st b :
+  empties (map TOut (seen_part st ++ [sent_body cfg st b])) = if is_empty b then [b_txns b] else [].
+Proof.
+  unfold seen_part, sent_body. destruct (seenl st); simpl; destruct (is_empty b); simpl;
+    try destruct (route cfg st b); reflexivity.
+Qed.
+
+(* ---------- structure of the open map; limits of every batch (C06, C15) ---------- *)
+Definition kind_ok (cfg : bcfg) : Prop :=
+  match c_kind cfg with BGeneric mx => (0 <= mx)%Z | BKinesis _ => True end.
+
+Definition entry_ok (cfg : bcfg) (p : string * obatch) : Prop :=
+  b_pkey (ob_batch (snd p)) = fst p /\ b_kind (ob_batch (snd p)) = c_kind cfg /\
+  (kind_ok cfg -> batch_ok (c_limits cfg) (ob_batch (snd p))).
+
+Definition open_ok (cfg : bcfg) (st : bstate) : Prop :=
+  NoDup (map fst (open st)) /\ Forall (entry_ok cfg) (open st).
+
+Lemma Forall_aset_b {V} (P : string * V -> Prop) k v m : Forall P m -> P (k, v) -> Forall P (aset k v m).
+Proof.
+  intros Hm Hp. induction Hm as [|[k' v'] m Hp' Hm IH]; simpl.
+  - constructor; auto.
+  - destruct (String.eqb_spec k k') as [->|Hne]; constructor; auto.
+Qed.
+Lemma Forall_adel_b {V} (P : string * V -> Prop) k m : Forall P m -> Forall P (adel k m).
+Proof.
+  induction 1 as [|[k' v] m Hp Hm IH]; simpl; [constructor|].
+  destruct (String.eqb k k'); auto.
+Qed.
+
+Lemma new_entry_ok cfg p c t : entry_ok cfg (p, mkOB (new_batch (c_kind cfg) p) c t).
+Proof.
+  unfold entry_ok; simpl. repeat split; auto. intros H. apply new_batch_ok. exact H.
+Qed.
+
+Lemma open_ok_aget cfg st p ob : open_ok cfg st -> aget p (open st) = Some ob -> entry_ok cfg (p, ob).
+Proof.
+  intros [_ H] Hg. rewrite Forall_forall in H. apply H. now apply aget_some_in.
+Qed.
+
+Lemma open_ok_step cfg g a g' t' : astep cfg g a = Some (g', t') -> open_ok cfg (g_st g) -> open_ok cfg (g_st g').
+Proof.
+  intros H [Hnd Hall]. apply astep_cases in H. destruct H as [Hd [H|[H|H]]].
+  - destruct H as (now & m & -> & Hp & -> & ->). unfold open_ok, feed_state; simpl.
+    destruct (aget (m_pkey m) (open (g_st g))) eqn:E; [split; assumption|].
+    split; [now apply nodup_aset|]. apply Forall_aset_b; [assumption|apply new_entry_ok].
+  - destruct H as (p & repl & ob & -> & Hg & -> & ->). unfold open_ok; simpl.
+    destruct repl as [now|].
+    + split; [now apply nodup_aset|]. apply Forall_aset_b; [assumption|apply new_entry_ok].
+    + split; [now apply nodup_adel|now apply Forall_adel_b].
+  - destruct H as (now & m & ob & b' & r & -> & Hp & Hg & Ha & Hr & -> & ->). unfold open_ok; simpl.
+    split; [now apply nodup_aset|]. apply Forall_aset_b; [assumption|].
+    destruct (open_ok_aget cfg _ _ _ (conj Hnd Hall) Hg) as (E1 & E2 & E3). simpl in *.
+    unfold entry_ok; simpl. rewrite (add_pkey _ _ _ _ _ Ha), (add_kind _ _ _ _ _ Ha).
+    repeat split; auto. intros Hk. eapply add_ok; eauto.
+Qed.
+
+Lemma open_ok_init cfg : open_ok cfg binit.
+Proof. split; constructor. Qed.
+
+(* every dispatched batch came out of the open map: non-empty, of the configured kind, within limits *)
+Definition disp_ok (cfg : bcfg) (t : list tr) : Prop :=
+  forall w b, In (w, b) (dispatched t) ->
+    is_empty b = false /\ b_kind b = c_kind cfg /\ (kind_ok cfg -> batch_ok (c_limits cfg) b).
+
+Lemma struct_inv cfg acts g t :
+  arun cfg ginit acts = Some (g, t) -> open_ok cfg (g_st g) /\ disp_ok cfg t.
+Proof.
+  intros H.
+  apply (arun_inv cfg (fun g t => open_ok cfg (g_st g) /\ disp_ok cfg t)) with (t := []) (g := ginit) (acts := acts).
+  - clear. intros g t a g' t' [Ho Hdisp] H. split; [eapply open_ok_step; eauto|].
+    intros w b Hin. rewrite dispatched_app in Hin.
+    apply in_app_or in Hin. destruct Hin as [Hin|Hin]; [exact (Hdisp w b Hin)|].
+    apply astep_cases in H. destruct H as [Hd [H|[H|H]]].
+    + destruct H as (now & m & -> & Hp & -> & ->). destruct Hin.
+    + destruct H as (p & repl & ob & -> & Hg & -> & ->). rewrite dispatched_send in Hin.
+      destruct (is_empty (ob_batch ob)) eqn:He; [destruct Hin|].
+      destruct (route cfg (g_st g) (ob_batch ob)); [|destruct Hin].
+      destruct Hin as [E|[]]. inversion E; subst.
+      destruct (open_ok_aget cfg _ _ _ Ho Hg) as (E1 & E2 & E3). auto.
+    + destruct H as (now & m & ob & b' & r & -> & Hp & Hg & Ha & Hr & -> & ->). destruct Hin.
+  - split; [apply open_ok_init|]. intros w b [].
+  - exact H.
+Qed.
+
+(* ---------- the final result of Add on a change is decided by the change alone ---------- *)
+Definition accepted (cfg : bcfg) (m : msg) : bool :=
+  match fate_of cfg m with FAccepted => true | _ => false end.
+
+Lemma add_fate cfg b m b' r :
+  b_kind b = c_kind cfg -> is_marker m = false -> add (c_limits cfg) b m = (b', r) -> final_res r = true ->
+  fate_of cfg m = match r with AOk => FAccepted | ATooBig => FDroppedBig | _ => FDroppedInvalid end.
+Proof.
+  intros Hk Hm Ha Hr. unfold fate_of. destruct (c_kind cfg) as [mx|meth] eqn:Ek.
+  - destruct (add_result_generic _ _ _ _ _ _ Ha Hm Hk) as [[-> _]|[-> _]]; [reflexivity|discriminate].
+  - pose proof (add_result_kinesis _ _ _ _ _ _ Ha Hm Hk) as H. fold (pk_of meth m).
+    destruct r; try discriminate.
+    + destruct H as (H1 & _ & H3 & _). apply N.ltb_ge in H1. rewrite H1.
+      destruct (String.eqb_spec (pk_of meth m) ""); [contradiction|reflexivity].
+    + apply N.ltb_lt in H. now rewrite H.
+    + destruct H as (H1 & _ & H3). apply N.ltb_ge in H1. rewrite H1, H3. reflexivity.
+Qed.
+
+Definition pend_change (g : gstate) : Prop := forall m, g_pend g = Some m -> is_marker m = false.
+
+Lemma pend_change_step cfg g a g' t' : astep cfg g a = Some (g', t') -> pend_change g -> pend_change g'.
+Proof.
+  intros H Hp. apply astep_cases in H. destruct H as [Hd [H|[H|H]]].
+  - destruct H as (now & m & -> & _ & -> & ->). intros m'. simpl.
+    destruct (is_marker m) eqn:E; [discriminate|]. intros H; inversion H; subst; assumption.
+  - destruct H as (p & repl & ob & -> & Hg & -> & ->). exact Hp.
+  - destruct H as (now & m & ob & b' & r & -> & _ & Hg & Ha & Hr & -> & ->). intros m'; discriminate.
+Qed.
+
+(* ---------- per partition key nothing is reordered, lost or invented (C05, C06) ---------- *)
+Definition accp (cfg : bcfg) (p : string) (m : msg) : bool :=
+  change m && accepted cfg m && String.eqb (m_pkey m) p.
+
+Definition items_for (p : string) (wb : N * batch) : list rec :=
+  if String.eqb (b_pkey (snd wb)) p then b_items (snd wb) else [].
+Definition disp_items (p : string) (t : list tr) : list rec := flat_map (items_for p) (dispatched t).
+Definition open_items (p : string) (st : bstate) : list rec :=
+  match aget p (open st) with Some ob => b_items (ob_batch ob) | None => [] end.
+
+Definition pk_inv (cfg : bcfg) (g : gstate) (t : list tr) : Prop :=
+  forall p, disp_items p t ++ open_items p (g_st g) =
+            map (rec_of_kind (c_kind cfg)) (filter (accp cfg p) (g_added g)).
+
+Lemma disp_items_app p a b : disp_items p (a ++ b) = disp_items p a ++ disp_items p b.
+Proof. unfold disp_items. now rewrite dispatched_app, flat_map_app. Qed.
+
+Lemma is_empty_items b : is_empty b = true -> b_items b = [].
+Proof. unfold is_empty. destruct (b_items b); [reflexivity|discriminate]. Qed.
+
+Lemma pk_inv_step cfg g a g' t t' :
+  workers_ok cfg ->
+  astep cfg g a = Some (g', t') -> open_ok cfg (g_st g) -> pend_change g -> pk_inv cfg g t -> pk_inv cfg g' (t ++ t').
+Proof.
+  intros Hw H Ho Hpc Hpk p. specialize (Hpk p). rewrite disp_items_app.
+  apply astep_cases in H. destruct H as [Hd [H|[H|H]]].
+  - destruct H as (now & m & -> & _ & -> & ->). simpl g_st. simpl g_added.
+    unfold disp_items at 2. simpl. rewrite app_nil_r. rewrite <- Hpk. f_equal.
+    unfold open_items, feed_state. simpl.
+    destruct (aget (m_pkey m) (open (g_st g))) eqn:E; [reflexivity|].
+    rewrite aget_aset. destruct (String.eqb_spec p (m_pkey m)) as [->|Hne]; [now rewrite E|reflexivity].
+  - destruct H as (p0 & repl & ob & -> & Hg & -> & ->). simpl g_st. simpl g_added. rewrite <- Hpk.
+    destruct (open_ok_aget cfg _ _ _ Ho Hg) as (E1 & E2 & E3). simpl in E1.
+    unfold disp_items at 2. rewrite dispatched_send.
+    assert (Hopen : open_items p (set_open (sent_state cfg (g_st g) (ob_batch ob))
+               match repl with
+               | Some now => aset p0 (mkOB (new_batch (c_kind cfg) p0) now now) (open (g_st g))
+               | None => adel p0 (open (g_st g))
+               end) = if String.eqb p p0 then [] else open_items p (g_st g)).
+    { unfold open_items. simpl. destruct repl; [rewrite aget_aset|rewrite aget_adel];
+        destruct (String.eqb p p0); reflexivity. }
+    rewrite Hopen. rewrite <- app_assoc. f_equal.
+    destruct (String.eqb_spec p p0) as [->|Hne].
+    + unfold open_items at 1. rewrite Hg.
+      destruct (is_empty (ob_batch ob)) eqn:He.
+      * simpl. now rewrite is_empty_items.
+      * destruct (route_some cfg (g_st g) (ob_batch ob) Hw) as [w ->]. simpl.
+        unfold items_for. simpl. rewrite E1, String.eqb_refl. now rewrite !app_nil_r.
+    + destruct (is_empty (ob_batch ob)) eqn:He; [reflexivity|].
+      destruct (route_some cfg (g_st g) (ob_batch ob) Hw) as [w ->]. simpl.
+      unfold items_for. simpl. rewrite E1.
+      destruct (String.eqb_spec p0 p); [congruence|reflexivity].
+  - destruct H as (now & m & ob & b' & r & -> & Hp & Hg & Ha & Hr & -> & ->). simpl g_st. simpl g_added.
+    unfold disp_items at 2. simpl. rewrite app_nil_r.
+    destruct (open_ok_aget cfg _ _ _ Ho Hg) as (E1 & E2 & E3). simpl in E1, E2.
+    pose proof (Hpc _ Hp) as Hm.
+    pose proof (add_fate cfg _ _ _ _ E2 Hm Ha Hr) as Hf.
+    rewrite filter_app, map_app, <- Hpk, <- app_assoc. f_equal.
+    unfold open_items. simpl. rewrite aget_aset.
+    unfold accp, accepted, change. simpl. rewrite Hm, Hf. simpl.
+    rewrite (String.eqb_sym (m_pkey m) p).
+    destruct (String.eqb_spec p (m_pkey m)) as [->|Hne].
+    + rewrite Hg. simpl. rewrite (add_items _ _ _ _ _ Ha). unfold change. rewrite Hm, E2.
+      destruct r; try discriminate; simpl; rewrite ?app_nil_r; reflexivity.
+    + destruct r; try discriminate; simpl; now rewrite app_nil_r.
+Qed.
+
+Lemma pk_invariant cfg acts g t : workers_ok cfg ->
+  arun cfg ginit acts = Some (g, t) -> open_ok cfg (g_st g) /\ pend_change g /\ pk_inv cfg g t.
+Proof.
+  intros Hw H.
+  apply (arun_inv cfg (fun g t => open_ok cfg (g_st g) /\ pend_change g /\ pk_inv cfg g t))
+    with (t := []) (g := ginit) (acts := acts).
+  - intros g0 t0 a g1 t1 (Ho & Hp & Hk) Hs. split; [eapply open_ok_step; eauto|].
+    split; [eapply pend_change_step; eauto|]. eapply pk_inv_step; eauto.
+  - split; [apply open_ok_init|]. split; [intros m; discriminate|]. intros p. reflexivity.
+  - exact H.
+Qed.
+
+(* ================= statements about runs of the model ================= *)
+Lemma sublist_map {A B} (f : A -> B) a b : sublist a b -> sublist (map f a) (map f b).
+Proof. induction 1; simpl; [apply sub_nil|apply sub_skip|apply sub_take]; auto. Qed.
+Lemma sublist_app_l {A} (a b : list A) : sublist a (a ++ b).
+Proof. rewrite <- (app_nil_r a) at 1. apply sublist_app; [apply sublist_refl|apply sub_nil]. Qed.
+Lemma sublist_app_r {A} (a b : list A) : sublist b (a ++ b).
+Proof. change b with ([] ++ b) at 1. apply sublist_app; [apply sub_nil|apply sublist_refl]. Qed.
+Lemma sublist_flat_map {A B} (f : A -> list B) x l : In x l -> sublist (f x) (flat_map f l).
+Proof.
+  induction l as [|y l IH]; simpl; [tauto|]. intros [->|H].
+  - apply sublist_app_l.
+  - eapply sublist_trans; [apply IH; assumption|apply sublist_app_r].
+Qed.
+Lemma sublist_filter {A} (p : A -> bool) l : sublist (filter p l) l.
+Proof. induction l as [|x l IH]; simpl; [apply sub_nil|]. destruct (p x); [apply sub_take|apply sub_skip]; auto. Qed.
+
+Lemma filter_changes (f : msg -> bool) l : (forall m, f m = true -> change m = true) ->
+  filter f (changes l) = filter f l.
+Proof.
+  intros H. unfold changes. induction l as [|m l IH]; simpl; [reflexivity|].
+  destruct (change m) eqn:E; simpl; rewrite IH; [reflexivity|].
+  destruct (f m) eqn:F; [rewrite (H _ F) in E; discriminate|reflexivity].
+Qed.
+
+Lemma accp_change cfg p m : accp cfg p m = true -> change m = true.
+Proof. unfold accp. intros H. apply andb_prop in H. destruct H as [H _]. apply andb_prop in H. tauto. Qed.
+
+Definition dispatched_for (p : string) (t : list tr) : list (N * batch) :=
+  filter (fun wb => String.eqb (b_pkey (snd wb)) p) (dispatched t).
+
+Lemma disp_items_for p t : flat_map (fun wb => b_items (snd wb)) (dispatched_for p t) = disp_items p t.
+Proof.
+  unfold dispatched_for, disp_items, items_for. induction (dispatched t) as [|wb l IH]; simpl; [reflexivity|].
+  destruct (String.eqb (b_pkey (snd wb)) p); simpl; now rewrite IH.
+Qed.
+
+(* C05_per_key, on records (ids, partition keys and lengths), hence on ids *)
+Lemma run_per_key cfg evs st t : workers_ok cfg -> brun cfg binit evs = (st, t) -> dead st = false ->
+  forall p,
+    flat_map (fun wb => b_items (snd wb)) (dispatched_for p t) ++ open_items p st =
+    map (rec_of_kind (c_kind cfg)) (filter (accp cfg p) (fed t)).
+Proof.
+  intros Hw H Hd p. destruct (brun_machine cfg evs st t Hw H Hd) as [acts Ha].
+  destruct (pk_invariant cfg acts _ _ Hw Ha) as (_ & _ & Hpk). specialize (Hpk p). simpl in Hpk.
+  rewrite disp_items_for, Hpk. rewrite filter_changes; [reflexivity|apply accp_change].
+Qed.
+
+Lemma run_per_key_ids cfg evs st t : workers_ok cfg -> brun cfg binit evs = (st, t) -> dead st = false ->
+  forall p,
+    flat_map (fun wb => ids (snd wb)) (dispatched_for p t) ++ map r_id (open_items p st) =
+    map m_id (filter (accp cfg p) (fed t)).
+Proof.
+  intros Hw H Hd p. pose proof (run_per_key cfg evs st t Hw H Hd p) as E.
+  apply (f_equal (map r_id)) in E. rewrite map_app, map_map in E.
+  rewrite (map_ext _ m_id (r_id_rec_of_kind (c_kind cfg))) in E. rewrite <- E. f_equal.
+  clear E. unfold ids. induction (dispatched_for p t) as [|wb l IH]; simpl; [reflexivity|]. now rewrite map_app, IH.
+Qed.
+
+(* C06_homogeneous *)
+Lemma run_homogeneous cfg evs st t : workers_ok cfg -> brun cfg binit evs = (st, t) -> dead st = false ->
+  (forall p ob, In (p, ob) (open st) -> b_pkey (ob_batch ob) = p /\ b_kind (ob_batch ob) = c_kind cfg) /\
+  (forall w b r, In (w, b) (dispatched t) -> In r (b_items b) ->
+     exists m, In m (fed t) /\ is_marker m = false /\ fate_of cfg m = FAccepted /\
+               m_pkey m = b_pkey b /\ r = rec_of_kind (c_kind cfg) m).
+Proof.
+  intros Hw H Hd. destruct (brun_machine cfg evs st t Hw H Hd) as [acts Ha].
+  destruct (pk_invariant cfg acts _ _ Hw Ha) as ((_ & Ho) & _ & _). simpl in Ho. split.
+  - intros p ob Hin. rewrite Forall_forall in Ho. destruct (Ho _ Hin) as (E1 & E2 & _). auto.
+  - intros w b r Hin Hr.
+    pose proof (run_per_key cfg evs st t Hw H Hd (b_pkey b)) as E.
+    assert (Hin' : In r (map (rec_of_kind (c_kind cfg)) (filter (accp cfg (b_pkey b)) (fed t)))).
+    { rewrite <- E. apply in_or_app. left. apply in_flat_map. exists (w, b). split; [|exact Hr].
+      unfold dispatched_for. apply filter_In. split; [assumption|]. simpl. apply String.eqb_refl. }
+    apply in_map_iff in Hin'. destruct Hin' as (m & <- & Hm). apply filter_In in Hm. destruct Hm as [Hm1 Hm2].
+    exists m. unfold accp, accepted, change in Hm2.
+    apply andb_prop in Hm2. destruct Hm2 as [Hm2 Hm3]. apply andb_prop in Hm2. destruct Hm2 as [Hm2 Hm4].
+    apply negb_true_iff in Hm2. apply String.eqb_eq in Hm3.
+    repeat split; auto. destruct (fate_of cfg m); try discriminate; reflexivity.
+Qed.
+
+(* C05_in_batch *)
+Lemma run_in_batch cfg evs st t : workers_ok cfg -> brun cfg binit evs = (st, t) -> dead st = false ->
+  forall w b, In (w, b) (dispatched t) ->
+    sublist (b_items b) (map (rec_of_kind (c_kind cfg)) (fed t)) /\ sublist (ids b) (map m_id (fed t)).
+Proof.
+  intros Hw H Hd w b Hin.
+  assert (S1 : sublist (b_items b) (map (rec_of_kind (c_kind cfg)) (fed t))).
+  { pose proof (run_per_key cfg evs st t Hw H Hd (b_pkey b)) as E.
+    eapply sublist_trans; [|apply sublist_map; apply (sublist_filter (accp cfg (b_pkey b)))].
+    rewrite <- E. eapply sublist_trans; [|apply sublist_app_l].
+    apply (sublist_flat_map (fun wb => b_items (snd wb)) (w, b)).
+    unfold dispatched_for. apply filter_In. split; [assumption|]. simpl. apply String.eqb_refl. }
+  split; [assumption|]. unfold ids. apply (sublist_map r_id) in S1. rewrite map_map in S1.
+  now rewrite (map_ext _ m_id (r_id_rec_of_kind (c_kind cfg))) in S1.
+Qed.
+
+(* C15_dispatched_limits *)
+Lemma run_dispatched_limits cfg evs st t : workers_ok cfg -> kind_ok cfg ->
+  brun cfg binit evs = (st, t) -> dead st = false ->
+  forall w b, In (w, b) (dispatched t) ->
+    is_empty b = false /\ b_kind b = c_kind cfg /\ batch_ok (c_limits cfg) b.
+Proof.
+  intros Hw Hk H Hd w b Hin. destruct (brun_machine cfg evs st t Hw H Hd) as [acts Ha].
+  destruct (struct_inv cfg acts _ _ Ha) as [_ Hdisp]. destruct (Hdisp w b Hin) as (E1 & E2 & E3). auto.
+Qed.
+
+Lemma run_open_limits cfg evs st t : workers_ok cfg -> kind_ok cfg ->
+  brun cfg binit evs = (st, t) -> dead st = false ->
+  NoDup (map fst (open st)) /\
+  forall p ob, In (p, ob) (open st) -> batch_ok (c_limits cfg) (ob_batch ob).
+Proof.
+  intros Hw Hk H Hd. destruct (brun_machine cfg evs st t Hw H Hd) as [acts Ha].
+  destruct (struct_inv cfg acts _ _ Ha) as [[Hnd Ho] _]. simpl in *. split; [assumption|].
+  intros p ob Hin. rewrite Forall_forall in Ho. destruct (Ho _ Hin) as (_ & _ & E). auto.
+Qed.
+
+(* ---------- routing (C05) ---------- *)
+Lemma partition_routing_inv cfg acts g t : c_routing cfg = ByPartition ->
+  arun cfg ginit acts = Some (g, t) ->
+  forall w b, In (w, b) (dispatched t) -> Some w = quick_hash (b_pkey b) (c_workers cfg).
+Proof.
+  intros Hr H.
+  refine (arun_inv cfg (fun _ t => forall w b, In (w, b) (dispatched t) -> Some w = quick_hash (b_pkey b) (c_workers cfg))
+            _ acts ginit [] g t _ H); [|intros w b []].
+  clear H. intros g0 t0 a g1 t1 IH H w b Hin. rewrite dispatched_app in Hin.
+  apply in_app_or in Hin. destruct Hin as [Hin|Hin]; [now apply IH|].
+  apply astep_cases in H. destruct H as [Hd [H|[H|H]]].
+  - destruct H as (now & m & -> & _ & -> & ->). destruct Hin.
+  - destruct H as (p & repl & ob & -> & Hg & -> & ->). rewrite dispatched_send in Hin.
+    destruct (is_empty (ob_batch ob)); [destruct Hin|]. unfold route in Hin. rewrite Hr in Hin.
+    destruct (quick_hash (b_pkey (ob_batch ob)) (c_workers cfg)) eqn:E; [|destruct Hin].
+    destruct Hin as [E'|[]]. inversion E'; subst. now rewrite E.
+  - destruct H as (now & m & ob & b' & r & -> & _ & _ & _ & _ & -> & ->). destruct Hin.
+Qed.
+
+Lemma run_partition_routing cfg evs st t : workers_ok cfg -> c_routing cfg = ByPartition ->
+  brun cfg binit evs = (st, t) -> dead st = false ->
+  forall w b, In (w, b) (dispatched t) -> Some w = quick_hash (b_pkey b) (c_workers cfg).
+Proof.
+  intros Hw Hr H Hd. destruct (brun_machine cfg evs st t Hw H Hd) as [acts Ha].
+  eapply partition_routing_inv; eauto.
+Qed.
+
+Lemma next_rr_mod W n : (1 <= W)%N ->
+  (if (n mod W =? W - 1)%N then 0%N else (n mod W + 1)%N) = ((n + 1) mod W)%N.
+Proof.
+  intros HW. assert (HW0 : W <> 0%N) by lia.
+  pose proof (N.mod_upper_bound n W HW0) as Hlt.
+  assert (E0 : ((n + 1) mod W = (n mod W + 1) mod W)%N) by (symmetry; apply N.add_mod_idemp_l; assumption).
+  rewrite E0. clear E0. generalize dependent (n mod W)%N. intros r Hlt.
+  destruct (N.eqb_spec r (W - 1)) as [E|E].
+  - rewrite E. replace (W - 1 + 1)%N with W by lia. now rewrite N.mod_same.
+  - rewrite N.mod_small; [reflexivity|lia].
+Qed.
+
+Definition rr_inv (cfg : bcfg) (g : gstate) (t : list tr) : Prop :=
+  let n := List.length (dispatched t) in
+  rr (g_st g) = (N.of_nat n mod c_workers cfg)%N /\
+  map fst (dispatched t) = map (fun i => (N.of_nat i mod c_workers cfg)%N) (seq 0 n).
+
+Lemma round_robin_inv cfg acts g t : workers_ok cfg -> c_routing cfg = RoundRobin ->
+  arun cfg ginit acts = Some (g, t) -> rr_inv cfg g t.
+Proof.
+  intros Hw Hr H.
+  refine (arun_inv cfg (rr_inv cfg) _ acts ginit [] g t _ H).
+  2:{ unfold rr_inv. simpl. split; [|reflexivity]. rewrite N.mod_0_l; [reflexivity|unfold workers_ok in Hw; lia]. }
+  clear H. intros g0 t0 a g1 t1 [IH1 IH2] H. unfold rr_inv. rewrite dispatched_app.
+  apply astep_cases in H. destruct H as [Hd [H|[H|H]]].
+  - destruct H as (now & m & -> & _ & -> & ->). simpl. rewrite app_nil_r. auto.
+  - destruct H as (p & repl & ob & -> & Hg & -> & ->). rewrite dispatched_send. simpl g_st. simpl rr.
+    destruct (is_empty (ob_batch ob)).
+    + rewrite app_nil_r. auto.
+    + unfold route, next_rr. rewrite Hr. rewrite app_length, map_app. simpl.
+      rewrite Nat.add_1_r, seq_S, map_app. simpl. rewrite <- IH2, IH1. split; [|reflexivity].
+      rewrite next_rr_mod by exact Hw. f_equal. lia.
+  - destruct H as (now & m & ob & b' & r & -> & _ & _ & _ & _ & -> & ->). simpl. rewrite app_nil_r.
+    split; [|assumption]. destruct r; simpl; assumption.
+Qed.
+
+Lemma run_round_robin cfg evs st t : workers_ok cfg -> c_routing cfg = RoundRobin ->
+  brun cfg binit evs = (st, t) -> dead st = false ->
+  map fst (dispatched t) = map (fun i => (N.of_nat i mod c_workers cfg)%N) (seq 0 (List.length (dispatched t))) /\
+  rr st = (N.of_nat (List.length (dispatched t)) mod c_workers cfg)%N.
+Proof.
+  intros Hw Hr H Hd. destruct (brun_machine cfg evs st t Hw H Hd) as [acts Ha].
+  destruct (round_robin_inv cfg acts _ _ Hw Hr Ha) as [E1 E2]. auto.
+Qed.
+
+(* ---------- additive invariants: whatever is measured batch by batch is conserved (C04) ---------- *)
+Definition zsum {A} (f : A -> Z) (l : list A) : Z := sum_Z (map f l).
+Lemma zsum_app {A} (f : A -> Z) a b : zsum f (a ++ b) = (zsum f a + zsum f b)%Z.
+Proof. unfold zsum, sum_Z. rewrite map_app. induction (map f a); simpl; lia. Qed.
+Lemma zsum_cons {A} (f : A -> Z) x l : zsum f (x :: l) = (f x + zsum f l)%Z.
+Proof. reflexivity. Qed.
+
+Lemma adel_notin {V} (k : string) (m : list (string * V)) : ~ In k (map fst m) -> adel k m = m.
+Proof.
+  induction m as [|[k0 v0] m IH]; simpl; [reflexivity|]. intros H.
+  destruct (String.eqb_spec k k0) as [->|Hne]; [tauto|]. rewrite IH; tauto.
+Qed.
+
+Section Additive.
+  Context (cfg : bcfg) (f : batch -> Z) (fe : txmap -> Z) (h : msg -> Z).
+  Context (f_new : forall p, f (new_batch (c_kind cfg) p) = 0%Z).
+  Context (f_empty : forall b, is_empty b = true -> f b = fe (b_txns b)).
+  Context (f_add : forall b m b' r, b_kind b = c_kind cfg -> is_marker m = false ->
+                     add (c_limits cfg) b m = (b', r) -> final_res r = true -> f b' = (f b + h m)%Z).
+
+  Definition osum (opn : list (string * obatch)) : Z := zsum (fun kv => f (ob_batch (snd kv))) opn.
+
+  Lemma osum_aset_none p v l : aget p l = None -> osum (aset p v l) = (osum l + f (ob_batch v))%Z.
+  Proof.
+    unfold osum. induction l as [|[k0 v0] l IH]; simpl.
+    - intros _. unfold zsum, sum_Z. simpl. lia.
+    - destruct (String.eqb_spec p k0) as [->|Hne]; [discriminate|]. intros H.
+      rewrite !zsum_cons, IH by assumption. simpl. lia.
+  Qed.
+  Lemma osum_aset_some p v v0 l : aget p l = Some v0 ->
+    osum (aset p v l) = (osum l - f (ob_batch v0) + f (ob_batch v))%Z.
+  Proof.
+    unfold osum. induction l as [|[k0 v1] l IH]; simpl; [discriminate|].
+    destruct (String.eqb_spec p k0) as [->|Hne]; intros H.
+    - inversion H; subst. rewrite !zsum_cons. simpl. lia.
+    - rewrite !zsum_cons, IH by assumption. simpl. lia.
+  Qed.
+  Lemma osum_adel p v0 l : NoDup (map fst l) -> aget p l = Some v0 ->
+    osum (adel p l) = (osum l - f (ob_batch v0))%Z.
+  Proof.
+    unfold osum. induction l as [|[k0 v1] l IH]; simpl; [discriminate|]. intros Hnd.
+    inversion Hnd; subst.
+    destruct (String.eqb_spec p k0) as [->|Hne]; intros H.
+    - inversion H; subst. rewrite adel_notin by assumption. rewrite zsum_cons. simpl. lia.
+    - rewrite !zsum_cons, IH by assumption. simpl. lia.
+  Qed.
+
+  Definition add_inv (g : gstate) (t : list tr) : Prop :=
+    (zsum (fun wb => f (snd wb)) (dispatched t) + zsum fe (empties t) + osum (open (g_st g)))%Z =
+    zsum h (g_added g).
+
+  Lemma add_inv_step g a g' t t' : workers_ok cfg ->
+    astep cfg g a = Some (g', t') -> open_ok cfg (g_st g) -> pend_change g -> add_inv g t -> add_inv g' (t ++ t').
+  Proof.
+    intros Hw H Ho Hpc Hi. unfold add_inv in *. rewrite dispatched_app, empties_app, !zsum_app.
+    apply astep_cases in H. destruct H as [Hd [H|[H|H]]].
+    - destruct H as (now & m & -> & _ & -> & ->). simpl g_st. simpl g_added. rewrite <- Hi.
+      unfold feed_state. simpl open.
+      destruct (aget (m_pkey m) (open (g_st g))) eqn:E.
+      + unfold zsum, sum_Z. simpl. lia.
+      + rewrite osum_aset_none by assumption. simpl. rewrite f_new. unfold zsum, sum_Z. simpl. lia.
+    - destruct H as (p & repl & ob & -> & Hg & -> & ->). simpl g_st. simpl g_added. rewrite <- Hi.
+      rewrite dispatched_send, empties_send. simpl open.
+      assert (Hopen : osum (match repl with
+                            | Some now => aset p (mkOB (new_batch (c_kind cfg) p) now now) (open (g_st g))
+                            | None => adel p (open (g_st g))
+                            end) = (osum (open (g_st g)) - f (ob_batch ob))%Z).
+      { destruct repl.
+        - rewrite (osum_aset_some _ _ _ _ Hg). simpl. rewrite f_new. lia.
+        - destruct Ho as [Hnd _]. now rewrite (osum_adel _ _ _ Hnd Hg). }
+      rewrite Hopen. destruct (is_empty (ob_batch ob)) eqn:He.
+      + rewrite (f_empty _ He). unfold zsum, sum_Z. simpl. lia.
+      + destruct (route_some cfg (g_st g) (ob_batch ob) Hw) as [w ->]. unfold zsum, sum_Z. simpl. lia.
+    - destruct H as (now & m & ob & b' & r & -> & Hp & Hg & Ha & Hr & -> & ->). simpl g_st. simpl g_added.
+      rewrite zsum_app, <- Hi. simpl open.
+      destruct (open_ok_aget cfg _ _ _ Ho Hg) as (E1 & E2 & E3). simpl in E1, E2.
+      rewrite (osum_aset_some _ _ _ _ Hg). simpl ob_batch.
+      rewrite (f_add _ _ _ _ E2 (Hpc _ Hp) Ha Hr).
+      assert (Hopen : open (bump_for r (g_st g)) = open (g_st g)) by (destruct r; reflexivity).
+      unfold zsum, sum_Z. simpl. lia.
+  Qed.
+
+  Lemma add_invariant acts g t : workers_ok cfg -> arun cfg ginit acts = Some (g, t) -> add_inv g t.
+  Proof.
+    intros Hw H.
+    assert (HH : open_ok cfg (g_st g) /\ pend_change g /\ add_inv g t); [|tauto].
+    refine (arun_inv cfg (fun g t => open_ok cfg (g_st g) /\ pend_change g /\ add_inv g t) _ acts ginit [] g t _ H).
+    - intros g0 t0 a g1 t1 (Ho & Hp & Hk) Hs. split; [eapply open_ok_step; eauto|].
+      split; [eapply pend_change_step; eauto|]. eapply add_inv_step; eauto.
+    - split; [apply open_ok_init|]. split; [intros m; discriminate|]. reflexivity.
+  Qed.
+
+  Lemma run_additive evs st t : workers_ok cfg -> brun cfg binit evs = (st, t) -> dead st = false ->
+    (zsum (fun wb => f (snd wb)) (dispatched t) + zsum fe (empties t) + osum (open st))%Z = zsum h (changes (fed t)).
+  Proof.
+    intros Hw H Hd. destruct (brun_machine cfg evs st t Hw H Hd) as [acts Ha].
+    exact (add_invariant acts _ _ Hw Ha).
+  Qed.
+End Additive.
+
+Lemma zsum_indicator {A} (q : A -> bool) l :
+  zsum (fun x => if q x then 1%Z else 0%Z) l = Z.of_nat (List.length (filter q l)).
+Proof.
+  induction l as [|x l IH]; [reflexivity|]. rewrite zsum_cons, IH. simpl.
+  destruct (q x); simpl List.length; lia.
+Qed.
+
+Lemma zsum_changes (q : msg -> bool) l :
+  zsum (fun m => if q m then 1%Z else 0%Z) (changes l) =
+  Z.of_nat (List.length (filter (fun m => change m && q m) l)).
+Proof.
+  rewrite zsum_indicator. f_equal. f_equal. unfold changes.
+  induction l as [|m l IH]; simpl; [reflexivity|].
+  destruct (change m); simpl; [destruct (q m); simpl; now rewrite IH|assumption].
+Qed.
+
+(* --- C04_written_counts --- *)
+Definition is_invalid (cfg : bcfg) (m : msg) : bool :=
+  match fate_of cfg m with FDroppedInvalid => true | _ => false end.
+Definition is_big (cfg : bcfg) (m : msg) : bool :=
+  match fate_of cfg m with FDroppedBig => true | _ => false end.
+
+Definition open_txcount (k : string) (st : bstate) : Z :=
+  zsum (fun kv => txcount k (b_txns (ob_batch (snd kv)))) (open st).
+
+Lemma run_written_counts cfg evs st t k :
+  workers_ok cfg -> brun cfg binit evs = (st, t) -> dead st = false ->
+  (zsum (fun wb => txcount k (b_txns (snd wb))) (dispatched t) + zsum (txcount k) (empties t) + open_txcount k st)%Z =
+  Z.of_nat (List.length (filter (fun m => change m && (String.eqb (m_key m) k && negb (is_invalid cfg m))) (fed t))).
+Proof.
+  intros Hw H Hd. rewrite <- zsum_changes.
+  apply (run_additive cfg (fun b => txcount k (b_txns b)) (txcount k)
+           (fun m => if String.eqb (m_key m) k && negb (is_invalid cfg m) then 1%Z else 0%Z)) with (evs := evs); auto.
+  intros b m b' r Hk Hm Ha Hr.
+  pose proof (add_fate cfg _ _ _ _ Hk Hm Ha Hr) as Hf. unfold is_invalid. rewrite Hf.
+  rewrite (add_txns _ _ _ _ _ Ha). unfold change. rewrite Hm. simpl.
+  destruct r; try discriminate; simpl; rewrite ?txcount_update, (String.eqb_sym (m_key m) k);
+    destruct (String.eqb k (m_key m)); simpl; lia.
+Qed.
+
+(* --- C04_conservation --- *)
+Definition open_ids (st : bstate) : list N := flat_map (fun kv => ids (ob_batch (snd kv))) (open st).
+
+Lemma count_occ_flat_map {A} (g : A -> list N) l i :
+  Z.of_nat (count_occ N.eq_dec (flat_map g l) i) = zsum (fun x => Z.of_nat (count_occ N.eq_dec (g x) i)) l.
+Proof.
+  induction l as [|x l IH]; [reflexivity|]. simpl flat_map. rewrite count_occ_app, zsum_cons, <- IH. lia.
+Qed.
+
+Lemma count_occ_map_filter (q : msg -> bool) l i :
+  Z.of_nat (count_occ N.eq_dec (map m_id (filter q l)) i) =
+  zsum (fun m => if q m && (m_id m =? i)%N then 1%Z else 0%Z) l.
+Proof.
+  induction l as [|m l IH]; [reflexivity|]. rewrite zsum_cons, <- IH. simpl.
+  destruct (q m); simpl.
+  - destruct (N.eq_dec (m_id m) i) as [E|E].
+    + apply N.eqb_eq in E. rewrite E. lia.
+    + apply N.eqb_neq in E. rewrite E. lia.
+  - lia.
+Qed.
+
+Lemma run_conservation cfg evs st t :
+  workers_ok cfg -> brun cfg binit evs = (st, t) -> dead st = false ->
+  Permutation (map m_id (filter (fun m => change m && accepted cfg m) (fed t)))
+              (flat_map (fun wb => ids (snd wb)) (dispatched t) ++ open_ids st).
+Proof.
+  intros Hw H Hd. apply (Permutation_count_occ N.eq_dec). intros i.
+  apply Nat2Z.inj. rewrite count_occ_app, Nat2Z.inj_add.
+  unfold open_ids. rewrite !count_occ_flat_map.
+  pose proof (run_additive cfg (fun b => Z.of_nat (count_occ N.eq_dec (ids b) i)) (fun _ => 0%Z)
+                (fun m => if accepted cfg m && (m_id m =? i)%N then 1%Z else 0%Z)) as HA.
+  unfold osum in HA. specialize (HA (fun _ => eq_refl)).
+  assert (Hz : forall l : list txmap, zsum (fun _ => 0%Z) l = 0%Z).
+  { induction l as [|x l IHl]; [reflexivity|]. rewrite zsum_cons, IHl. reflexivity. }
+  rewrite count_occ_map_filter.
+  assert (HR : zsum (fun m => if accepted cfg m && (m_id m =? i)%N then 1%Z else 0%Z) (changes (fed t)) =
+               zsum (fun m => if change m && accepted cfg m && (m_id m =? i)%N then 1%Z else 0%Z) (fed t)).
+  { unfold changes. clear. induction (fed t) as [|m l IH]; [reflexivity|]. simpl filter.
+    destruct (change m) eqn:E; simpl; rewrite ?zsum_cons, IH, ?E; simpl; [reflexivity|lia]. }
+  rewrite <- HR. rewrite <- (HA) with (evs := evs) (st := st) (t := t); auto.
+  - rewrite Hz. lia.
+  - intros b He. unfold ids. now rewrite is_empty_items.
+  - intros b m b' r Hk Hm Ha Hr.
+    pose proof (add_fate cfg _ _ _ _ Hk Hm Ha Hr) as Hf. unfold accepted. rewrite Hf.
+    unfold ids. rewrite (add_items _ _ _ _ _ Ha). unfold change. rewrite Hm. simpl.
+    destruct r; try discriminate; simpl; rewrite ?app_nil_r; try lia.
+    rewrite map_app, count_occ_app. simpl. rewrite r_id_rec_of_kind.
+    destruct (N.eq_dec (m_id m) i) as [E|E].
+    + apply N.eqb_eq in E. rewrite E. lia.
+    + apply N.eqb_neq in E. rewrite E. lia.
+Qed.
+
+(* --- drop statistics --- *)
+Definition drops_inv (cfg : bcfg) (g : gstate) : Prop :=
+  Z.of_N (drops_big (g_st g)) = zsum (fun m => if is_big cfg m then 1%Z else 0%Z) (g_added g) /\
+  Z.of_N (drops_invalid (g_st g)) = zsum (fun m => if is_invalid cfg m then 1%Z else 0%Z) (g_added g).
+
+Lemma drops_invariant cfg acts g t : arun cfg ginit acts = Some (g, t) -> drops_inv cfg g.
+Proof.
+  intros H.
+  assert (HH : open_ok cfg (g_st g) /\ pend_change g /\ drops_inv cfg g); [|tauto].
+  refine (arun_inv cfg (fun g _ => open_ok cfg (g_st g) /\ pend_change g /\ drops_inv cfg g) _ acts ginit [] g t _ H).
+  - intros g0 t0 a g1 t1 (Ho & Hp & [D1 D2]) Hs. split; [eapply open_ok_step; eauto|].
+    split; [eapply pend_change_step; eauto|].
+    apply astep_cases in Hs. destruct Hs as [Hd [Hs|[Hs|Hs]]].
+    + destruct Hs as (now & m & -> & _ & -> & ->). split; assumption.
+    + destruct Hs as (p & repl & ob & -> & Hg & -> & ->). split; assumption.
+    + destruct Hs as (now & m & ob & b' & r & -> & Hpe & Hg & Ha & Hr & -> & ->).
+      destruct (open_ok_aget cfg _ _ _ Ho Hg) as (E1 & E2 & E3). simpl in E2.
+      pose proof (add_fate cfg _ _ _ _ E2 (Hp _ Hpe) Ha Hr) as Hf.
+      unfold drops_inv, is_big, is_invalid. simpl g_added. rewrite !zsum_app.
+      unfold drops_inv, is_big, is_invalid in D1, D2. rewrite <- D1, <- D2.
+      unfold zsum, sum_Z. simpl. rewrite Hf.
+      destruct r; try discriminate; simpl; lia.
+  - split; [apply open_ok_init|]. split; [intros m; discriminate|]. split; reflexivity.
+Qed.
+
+Lemma run_drops cfg evs st t : workers_ok cfg -> brun cfg binit evs = (st, t) -> dead st = false ->
+  drops_big st = N.of_nat (List.length (filter (fun m => change m && is_big cfg m) (fed t))) /\
+  drops_invalid st = N.of_nat (List.length (filter (fun m => change m && is_invalid cfg m) (fed t))).
+Proof.
+  intros Hw H Hd. destruct (brun_machine cfg evs st t Hw H Hd) as [acts Ha].
+  destruct (drops_invariant cfg acts _ _ Ha) as [D1 D2]. simpl in D1, D2.
+  rewrite zsum_changes in D1, D2. split; lia.
+Qed.
+
+Lemma run_dispatched_kinesis L : within_aws L -> forall cfg meth evs st t,
+  workers_ok cfg -> c_kind cfg = BKinesis meth -> c_limits cfg = L ->
+  brun cfg binit evs = (st, t) -> dead st = false ->
+  forall w b, In (w, b) (dispatched t) ->
+    b_items b <> [] /\ (N.of_nat (List.length (b_items b)) <= 500)%N /\
+    sum_N (map rsize (b_items b)) = b_bytes b /\ (sum_N (map rsize (b_items b)) <= 5 * 2^20)%N /\
+    Forall (fun r => (r_len r <= 2^20)%N) (b_items b).
+Proof.
+  intros HL cfg meth evs st t Hw Hk HLc H Hd w b Hin.
+  assert (Hko : kind_ok cfg) by (unfold kind_ok; now rewrite Hk).
+  destruct (run_dispatched_limits cfg evs st t Hw Hko H Hd w b Hin) as (E1 & E2 & E3).
+  unfold batch_ok in E3. rewrite E2, Hk, HLc in E3.
+  split; [unfold is_empty in E1; destruct (b_items b); [discriminate|discriminate]|].
+  exact (kinesis_ok_aws L b HL E3).
+Qed.
+
+(* ---------- the Seen bookkeeping (C04_totals, C01) ---------- *)
+Definition is_commit (m : msg) : bool := String.eqb (m_op m) "COMMIT".
+
+(* totalMsgsInTxn / curTimeBasedKey / the Seen records, as a function of the messages received *)
+Fixpoint scan (cur : string) (tot : Z) (ms : list msg) : string * Z * list seen :=
+  match ms with
+  | [] => (cur, tot, [])
+  | m :: r =>
+      let s := if is_commit m then [mkSeen (m_txn m) (m_key m) tot (m_wal m)] else [] in
+      let tot1 := if String.eqb cur (m_key m) then tot else 0%Z in
+      let cur1 := if String.eqb cur (m_key m) then cur else m_key m in
+      let '(c, t, l) := scan cur1 (tot1 + (if is_marker m then 0 else 1))%Z r in
+      (c, t, s ++ l)
+  end.
+
+Definition seens_of (ms : list msg) : list seen := snd (scan "" 0%Z ms).
+
+Lemma scan_app a : forall cur tot b,
+  scan cur tot (a ++ b) =
+  let '(c1, t1, l1) := scan cur tot a in
+  let '(c2, t2, l2) := scan c1 t1 b in (c2, t2, l1 ++ l2).
+Proof.
+  induction a as [|m a IH]; intros cur tot b; simpl.
+  - destruct (scan cur tot b) as [[c t] l]. reflexivity.
+  - rewrite IH.
+    destruct (scan _ _ a) as [[c1 t1] l1]. destruct (scan c1 t1 b) as [[c2 t2] l2].
+    now rewrite app_assoc.
+Qed.
+
+Lemma seens_of_app a b : exists l, seens_of (a ++ b) = seens_of a ++ l.
+Proof.
+  unfold seens_of. rewrite scan_app. destruct (scan "" 0%Z a) as [[c1 t1] l1].
+  destruct (scan c1 t1 b) as [[c2 t2] l2]. simpl. eauto.
+Qed.
+
+(* one Seen per COMMIT, in order, carrying the COMMIT's transaction, delivery key and position *)
+Lemma scan_commits ms : forall cur tot,
+  map (fun s => (s_txn s, s_key s, s_commit s)) (snd (scan cur tot ms)) =
+  map (fun m => (m_txn m, m_key m, m_wal m)) (filter is_commit ms).
+Proof.
+  induction ms as [|m r IH]; intros cur tot; simpl; [reflexivity|].
+  specialize (IH (if String.eqb cur (m_key m) then cur else m_key m)
+                 ((if String.eqb cur (m_key m) then tot else 0) + (if is_marker m then 0 else 1))%Z).
+  destruct (scan _ _ r) as [[c t] l]. simpl in *.
+  destruct (is_commit m); simpl; now rewrite IH.
+Qed.
+
+Lemma seens_of_commit ms c : In c ms -> is_commit c = true ->
+  exists n, In (mkSeen (m_txn c) (m_key c) n (m_wal c)) (seens_of ms).
+Proof.
+  intros Hin Hc.
+  assert (H : In (m_txn c, m_key c, m_wal c) (map (fun s => (s_txn s, s_key s, s_commit s)) (seens_of ms))).
+  { unfold seens_of. rewrite scan_commits. apply in_map_iff. exists c. split; [reflexivity|].
+    apply filter_In. auto. }
+  apply in_map_iff in H. destruct H as ([tx k n w] & E & Hs). simpl in E. inversion E; subst. eauto.
+Qed.
+
+Definition pendn (g : gstate) : Z := match g_pend g with Some _ => 1%Z | None => 0%Z end.
+
+Definition scan_inv (g : gstate) (t : list tr) : Prop :=
+  scan "" 0%Z (fed t) = (curkey (g_st g), (total (g_st g) + pendn g)%Z, seen_outs t ++ seenl (g_st g)).
+
+Lemma scan_inv_step cfg g a g' t t' :
+  astep cfg g a = Some (g', t') -> scan_inv g t -> scan_inv g' (t ++ t').
+Proof.
+  intros H Hi. unfold scan_inv in *. rewrite fed_app, seen_outs_app.
+  apply astep_cases in H. destruct H as [Hd [H|[H|H]]].
+  - destruct H as (now & m & -> & Hp & -> & ->). rewrite scan_app, Hi. simpl.
+    unfold pendn in *. rewrite Hp. simpl. rewrite Z.add_0_r.
+    unfold is_commit. destruct (is_marker m); simpl; destruct (String.eqb (m_op m) "COMMIT");
+      rewrite ?app_nil_r, ?Z.add_0_r, <- ?app_assoc; reflexivity.
+  - destruct H as (p & repl & ob & -> & Hg & -> & ->). rewrite fed_outs, app_nil_r, Hi, seen_outs_send.
+    simpl. now rewrite app_nil_r.
+  - destruct H as (now & m & ob & b' & r & -> & Hp & Hg & Ha & Hr & -> & ->). simpl. rewrite !app_nil_r, Hi.
+    unfold pendn. rewrite Hp. simpl. destruct r; simpl; f_equal; f_equal; lia.
+Qed.
+
+(* properties of every batch at the moment it is dispatched, [pre] being the trace up to that moment *)
+Fixpoint all_disp (P : list tr -> N -> batch -> Prop) (pre t : list tr) : Prop :=
+  match t with
+  | [] => True
+  | e :: r => match e with TOut (OBatch w b) => P pre w b | _ => True end /\ all_disp P (pre ++ [e]) r
+  end.
+
+Lemma all_disp_app P a : forall pre b, all_disp P pre (a ++ b) <-> all_disp P pre a /\ all_disp P (pre ++ a) b.
+Proof.
+  induction a as [|e a IH]; intros pre b; simpl.
+  - rewrite app_nil_r. tauto.
+  - rewrite IH, <- app_assoc. simpl. tauto.
+Qed.
+
+Lemma all_disp_split P t : all_disp P [] t ->
+  forall t1 w b t2, t = t1 ++ TOut (OBatch w b) :: t2 -> P t1 w b.
+Proof.
+  intros H t1 w b t2 ->. apply all_disp_app in H. destruct H as [_ H]. simpl in H. tauto.
+Qed.
+
+Definition at_dispatch (pre : list tr) (w : N) (b : batch) : Prop :=
+  seens_of (fed pre) = seen_outs pre /\ incl (ids b) (map m_id (changes (fed pre))).
+
+Definition fed_inv (g : gstate) (t : list tr) : Prop := changes (fed t) = g_added g ++ olist (g_pend g).
+
+Lemma fed_inv_step cfg g a g' t t' :
+  astep cfg g a = Some (g', t') -> fed_inv g t -> fed_inv g' (t ++ t').
+Proof.
+  intros H Hi. unfold fed_inv in *. rewrite fed_app, changes_app.
+  apply astep_cases in H. destruct H as [Hd [H|[H|H]]].
+  - destruct H as (now & m & -> & Hp & -> & ->). rewrite Hi, Hp. simpl. unfold change.
+    destruct (is_marker m); simpl; now rewrite ?app_nil_r.
+  - destruct H as (p & repl & ob & -> & Hg & -> & ->). rewrite fed_outs. simpl. now rewrite app_nil_r.
+  - destruct H as (now & m & ob & b' & r & -> & Hp & Hg & Ha & Hr & -> & ->). simpl.
+    rewrite !app_nil_r, Hi, Hp. reflexivity.
+Qed.
+
+Lemma dispatch_invariant cfg acts g t : workers_ok cfg -> arun cfg ginit acts = Some (g, t) ->
+  scan_inv g t /\ all_disp at_dispatch [] t.
+Proof.
+  intros Hw H.
+  assert (HH : open_ok cfg (g_st g) /\ pend_change g /\ pk_inv cfg g t /\ scan_inv g t /\ fed_inv g t /\
+               all_disp at_dispatch [] t); [|tauto].
+  refine (arun_inv cfg (fun g t => open_ok cfg (g_st g) /\ pend_change g /\ pk_inv cfg g t /\ scan_inv g t /\
+                                   fed_inv g t /\ all_disp at_dispatch [] t) _ acts ginit [] g t _ H).
+  - clear H. intros g0 t0 a g1 t1 (Ho & Hp & Hk & Hs & Hf & Ha) H.
+    split; [eapply open_ok_step; eauto|]. split; [eapply pend_change_step; eauto|].
+    split; [eapply pk_inv_step; eauto|]. split; [eapply scan_inv_step; eauto|].
+    split; [eapply fed_inv_step; eauto|].
+    apply all_disp_app. split; [assumption|]. simpl.
+    apply astep_cases in H. destruct H as [Hd [H|[H|H]]].
+    + destruct H as (now & m & -> & _ & -> & ->). simpl. auto.
+    + destruct H as (p & repl & ob & -> & Hg & -> & ->).
+      assert (Hids : incl (ids (ob_batch ob)) (map m_id (changes (fed t0)))).
+      { specialize (Hk p). unfold open_items in Hk. rewrite Hg in Hk.
+        intros i Hi. unfold ids in Hi. apply in_map_iff in Hi. destruct Hi as (r & <- & Hr).
+        assert (Hr' : In r (map (rec_of_kind (c_kind cfg)) (filter (accp cfg p) (g_added g0)))).
+        { rewrite <- Hk. apply in_or_app. now right. }
+        apply in_map_iff in Hr'. destruct Hr' as (m & <- & Hm). apply filter_In in Hm.
+        rewrite r_id_rec_of_kind. apply in_map. rewrite Hf. apply in_or_app. left. tauto. }
+      unfold scan_inv in Hs.
+      unfold sent_body. destruct (is_empty (ob_batch ob)).
+      * unfold seen_part. destruct (seenl (g_st g0)); simpl; auto.
+      * destruct (route_some cfg (g_st g0) (ob_batch ob) Hw) as [w ->].
+        unfold seen_part. destruct (seenl (g_st g0)) as [|s l] eqn:El; simpl.
+        -- split; [|exact I]. split; [|assumption].
+           unfold seens_of. rewrite Hs. simpl. now rewrite app_nil_r.
+        -- split; [exact I|]. split; [|exact I]. split.
+           ++ unfold seens_of. rewrite fed_app, seen_outs_app. simpl. rewrite !app_nil_r, Hs. reflexivity.
+           ++ rewrite fed_app. simpl. now rewrite app_nil_r.
+    + destruct H as (now & m & ob & b' & r & -> & _ & _ & _ & _ & -> & ->). exact I.
+  - split; [apply open_ok_init|]. split; [intros m; discriminate|]. split; [intros p; reflexivity|].
+    split; [reflexivity|]. split; [reflexivity|exact I].
+Qed.
+
+(* C01, the batcher's half: when a batch is handed to a worker, every COMMIT received so far has
+   been announced to the progress tracker, and everything in the batch was received before *)
+Lemma run_seen_before_dispatch cfg evs st t :
+  workers_ok cfg -> brun cfg binit evs = (st, t) -> dead st = false ->
+  seen_outs t ++ seenl st = seens_of (fed t) /\
+  forall t1 w b t2, t = t1 ++ TOut (OBatch w b) :: t2 ->
+    seen_outs t1 = seens_of (fed t1) /\
+    incl (ids b) (map m_id (changes (fed t1))) /\
+    (forall c, In c (fed t1) -> is_commit c = true ->
+       exists n, In (mkSeen (m_txn c) (m_key c) n (m_wal c)) (seen_outs t1)).
+Proof.
+  intros Hw H Hd. destruct (brun_machine cfg evs st t Hw H Hd) as [acts Ha].
+  destruct (dispatch_invariant cfg acts _ _ Hw Ha) as [Hs Hall]. split.
+  - unfold scan_inv in Hs. unfold seens_of. rewrite Hs. reflexivity.
+  - intros t1 w b t2 E. destruct (all_disp_split _ _ Hall t1 w b t2 E) as [E1 E2].
+    split; [auto|]. split; [assumption|]. intros c Hc1 Hc2. rewrite <- E1. now apply seens_of_commit.
+Qed.
+
+(* ---------- C04_totals: under transaction framing a Seen carries the number of changes of its delivery ---------- *)
+Definition is_begin (m : msg) : bool := String.eqb (m_op m) "BEGIN".
+
+Definition nchanges (k : string) (ms : list msg) : Z :=
+  Z.of_nat (List.length (filter (fun m => change m && String.eqb (m_key m) k) ms)).
+
+(* framing: BEGIN k opens a block whose delivery key k was never used before; the changes and the
+   COMMIT of a block carry its key; a COMMIT closes the block (it may be missing: the next BEGIN
+   simply opens a new block).  [used] = keys of earlier blocks, [cur] = key of the open block. *)
+Fixpoint framed_from (used : list string) (cur : option string) (ms : list msg) : bool :=
+  match ms with
+  | [] => true
+  | m :: r =>
+      if is_begin m
+      then negb (existsb (String.eqb (m_key m)) used) && framed_from (m_key m :: used) (Some (m_key m)) r
+      else match cur with
+           | Some k => String.eqb (m_key m) k && framed_from used (if is_commit m then None else cur) r
+           | None => false
+           end
+  end.
+Definition framed (ms : list msg) : bool := framed_from [] None ms.
+
+(* the specification of the Seen list: one per COMMIT, in order, with the number of changes of the
+   COMMIT's delivery key received before it *)
+Fixpoint seens_spec (pre ms : list msg) : list seen :=
+  match ms with
+  | [] => []
+  | m :: r => (if is_commit m then [mkSeen (m_txn m) (m_key m) (nchanges (m_key m) pre) (m_wal m)] else [])
+              ++ seens_spec (pre ++ [m]) r
+  end.
+
+Lemma nchanges_snoc k pre m :
+  nchanges k (pre ++ [m]) = (nchanges k pre + (if change m && String.eqb (m_key m) k then 1 else 0))%Z.
+Proof.
+  unfold nchanges. rewrite filter_app, app_length. simpl.
+  destruct (change m && String.eqb (m_key m) k); simpl; lia.
+Qed.
+
+Lemma begin_marker m : is_begin m = true -> is_marker m = true.
+Proof. unfold is_begin, is_marker. intros ->. reflexivity. Qed.
+Lemma commit_marker m : is_commit m = true -> is_marker m = true.
+Proof. unfold is_commit, is_marker. intros ->. apply orb_true_r. Qed.
+Lemma begin_not_commit m : is_begin m = true -> is_commit m = false.
+Proof. unfold is_begin, is_commit. intros H. apply String.eqb_eq in H. rewrite H. reflexivity. Qed.
+
+Lemma existsb_eqb_in k l : existsb (String.eqb k) l = true <-> In k l.
+Proof.
+  rewrite existsb_exists. split.
+  - intros (x & Hx & E). apply String.eqb_eq in E. now subst.
+  - intros H. exists k. split; [assumption|apply String.eqb_refl].
+Qed.
+
+Lemma scan_framed ms : forall pre used cur c tot,
+  framed_from used cur ms = true ->
+  (forall k, ~ In k used -> nchanges k pre = 0%Z) ->
+  (In c used \/ tot = 0%Z) ->
+  (forall k, cur = Some k -> In k used /\ c = k /\ tot = nchanges k pre) ->
+  snd (scan c tot ms) = seens_spec pre ms.
+Proof.
+  induction ms as [|m r IH]; intros pre used cur c tot Hf H1 H2 H3; [reflexivity|].
+  simpl in Hf. simpl scan. simpl seens_spec.
+  destruct (is_begin m) eqn:Hb.
+  - (* BEGIN of a fresh key *)
+    apply andb_prop in Hf. destruct Hf as [Hnew Hf]. apply negb_true_iff in Hnew.
+    assert (Hnotin : ~ In (m_key m) used).
+    { intros Hin. apply existsb_eqb_in in Hin. congruence. }
+    rewrite (begin_not_commit _ Hb), (begin_marker _ Hb). simpl.
+    specialize (IH (pre ++ [m]) (m_key m :: used) (Some (m_key m))
+                   (if String.eqb c (m_key m) then c else m_key m)
+                   ((if String.eqb c (m_key m) then tot else 0) + 0)%Z Hf).
+    destruct (scan _ _ r) as [[c' t'] l']. simpl in *. apply IH.
+    + intros k Hk. rewrite nchanges_snoc. unfold change. rewrite (begin_marker _ Hb). simpl.
+      rewrite Z.add_0_r. apply H1. tauto.
+    + left. destruct (String.eqb_spec c (m_key m)); auto.
+    + intros k Hk. inversion Hk; subst. split; [now left|].
+      rewrite nchanges_snoc. unfold change. rewrite (begin_marker _ Hb). simpl.
+      rewrite (H1 _ Hnotin).
+      destruct (String.eqb_spec c (m_key m)) as [E|E]; [|split; [reflexivity|lia]].
+      split; [assumption|]. destruct H2 as [H2|H2]; [subst; contradiction|lia].
+  - destruct cur as [k|]; [|discriminate]. apply andb_prop in Hf. destruct Hf as [Hk Hf].
+    apply String.eqb_eq in Hk. destruct (H3 k eq_refl) as (Hku & Hc & Ht). subst c.
+    rewrite Hk, String.eqb_refl.
+    destruct (is_commit m) eqn:Hc.
+    + (* COMMIT of the open block *)
+      rewrite (commit_marker _ Hc). simpl.
+      specialize (IH (pre ++ [m]) used None k (tot + 0)%Z Hf).
+      destruct (scan _ _ r) as [[c' t'] l']. simpl in *. rewrite Ht. f_equal. apply IH.
+      * intros k' Hk'. rewrite nchanges_snoc. unfold change. rewrite (commit_marker _ Hc). simpl.
+        rewrite Z.add_0_r. now apply H1.
+      * now left.
+      * intros k' Hk'. discriminate.
+    + (* a change of the open block *)
+      assert (Hm : is_marker m = false).
+      { unfold is_marker. unfold is_begin in Hb. unfold is_commit in Hc. now rewrite Hb, Hc. }
+      rewrite Hm. simpl.
+      specialize (IH (pre ++ [m]) used (Some k) k (tot + 1)%Z Hf).
+      destruct (scan _ _ r) as [[c' t'] l']. simpl in *. apply IH.
+      * intros k' Hk'. rewrite nchanges_snoc. unfold change. rewrite Hm. simpl. rewrite Hk.
+        destruct (String.eqb_spec k k'); [subst; contradiction|]. rewrite Z.add_0_r. now apply H1.
+      * now left.
+      * intros k' Hk'. inversion Hk'; subst k'. split; [assumption|]. split; [reflexivity|].
+        rewrite nchanges_snoc. unfold change. rewrite Hm. simpl. rewrite Hk, String.eqb_refl. lia.
+Qed.
+
+Lemma seens_of_framed ms : framed ms = true -> seens_of ms = seens_spec [] ms.
+Proof.
+  intros H. unfold seens_of. apply (scan_framed ms [] [] None "" 0%Z H).
+  - intros k _. reflexivity.
+  - now right.
+  - intros k Hk. discriminate.
+Qed.
+
+(* C04_totals *)
+Lemma run_totals cfg evs st t :
+  workers_ok cfg -> brun cfg binit evs = (st, t) -> dead st = false -> framed (fed t) = true ->
+  seen_outs t ++ seenl st = seens_spec [] (fed t).
+Proof.
+  intros Hw H Hd Hf. destruct (run_seen_before_dispatch cfg evs st t Hw H Hd) as [E _].
+  rewrite E. now apply seens_of_framed.
+Qed.
+
+(* reading of the specification: membership form *)
+Lemma seens_spec_in ms : forall pre s, In s (seens_spec pre ms) ->
+  exists ms1 c ms2, ms = ms1 ++ c :: ms2 /\ is_commit c = true /\
+                    s = mkSeen (m_txn c) (m_key c) (nchanges (m_key c) (pre ++ ms1)) (m_wal c).
+Proof.
+  induction ms as [|m r IH]; intros pre s H; simpl in H; [destruct H|].
+  apply in_app_or in H. destruct H as [H|H].
+  - destruct (is_commit m) eqn:Hc; [|destruct H]. destruct H as [<-|[]].
+    exists [], m, r. rewrite app_nil_r. auto.
+  - destruct (IH _ _ H) as (ms1 & c & ms2 & -> & Hc & ->).
+    exists (m :: ms1), c, ms2. rewrite <- app_assoc. auto.
+Qed.
+
+(* ---------- the domain: configurations and messages for which the batcher never stops (C15/C17) ---------- *)
+Definition cfg_ok (cfg : bcfg) : bool :=
+  (1 <=? c_workers cfg)%N &&
+  match c_kind cfg with
+  | BGeneric mx => (1 <=? mx)%Z
+  | BKinesis _ => (1 <=? max_records (c_limits cfg))%N
+  end.
+
+(* an acceptable record fits an EMPTY batch: this is the exact guard under which addToBatch's
+   recursion on ERR_CANT_FIT ends after one retry (otherwise the Go code recurses for ever) *)
+Definition fits (cfg : bcfg) (m : msg) : bool :=
+  match c_kind cfg with
+  | BGeneric _ => true
+  | BKinesis meth =>
+      is_marker m || (max_record_bytes (c_limits cfg) <? m_jlen m)%N ||
+      (m_jlen m + N.of_nat (String.length (pk_of meth m)) <=? max_batch_bytes (c_limits cfg))%N
+  end.
+
+Lemma cfg_ok_workers cfg : cfg_ok cfg = true -> workers_ok cfg.
+Proof. unfold cfg_ok, workers_ok. intros H. apply andb_prop in H. destruct H as [H _]. now apply N.leb_le. Qed.
+Lemma cfg_ok_kind cfg : cfg_ok cfg = true -> kind_ok cfg.
+Proof.
+  unfold cfg_ok, kind_ok. intros H. apply andb_prop in H. destruct H as [_ H].
+  destruct (c_kind cfg); [apply Z.leb_le in H; lia|exact I].
+Qed.
+
+Lemma new_not_full cfg p : cfg_ok cfg = true -> is_full (c_limits cfg) (new_batch (c_kind cfg) p) = false.
+Proof.
+  unfold cfg_ok, is_full, nitems. intros H. apply andb_prop in H. destruct H as [_ H]. simpl.
+  destruct (c_kind cfg); simpl.
+  - apply Z.leb_le in H. apply Z.leb_gt. lia.
+  - apply N.leb_le in H. apply Z.leb_gt. lia.
+Qed.
+
+Lemma add_to_batch_never_fatal cfg st b m st3 b3 s o3 :
+  cfg_ok cfg = true -> fits cfg m = true -> is_marker m = false ->
+  b_kind b = c_kind cfg -> is_full (c_limits cfg) b = false ->
+  add_to_batch 2 cfg st b m = (st3, b3, s, o3) -> ok_status s = true.
+Proof.
+  intros Hc Hfit Hm Hk Hnf H. simpl in H.
+  destruct (add (c_limits cfg) b m) as [b' r] eqn:Ha.
+  destruct (c_kind cfg) as [mx|meth] eqn:Ek.
+  - destruct (add_result_generic _ _ _ _ _ _ Ha Hm Hk) as [[-> _]|[-> Hn]].
+    + inversion H; subst. reflexivity.
+    + unfold is_full in Hnf. rewrite Hk in Hnf. apply Z.leb_gt in Hnf. lia.
+  - pose proof (add_result_kinesis _ _ _ _ _ _ Ha Hm Hk) as Hr.
+    destruct r; try (inversion H; subst; reflexivity).
+    + destruct Hr as [_ Hr]. congruence.
+    + destruct Hr as (Hr1 & _ & _).
+      rewrite send_batch_spec in H.
+      destruct (add (c_limits cfg) (new_batch (BKinesis meth) (m_pkey m)) m) as [b2 r2] eqn:Ha2.
+      pose proof (add_result_kinesis _ _ _ _ _ _ Ha2 Hm eq_refl) as Hr2.
+      pose proof (new_not_full cfg (m_pkey m) Hc) as Hnew. rewrite Ek in Hnew.
+      destruct r2; try (inversion H; subst; reflexivity).
+      * destruct Hr2 as [_ Hr2]. congruence.
+      * destruct Hr2 as (_ & _ & Hr2). exfalso.
+        unfold fits in Hfit. rewrite Ek, Hm in Hfit. simpl in Hfit.
+        apply N.ltb_ge in Hr1. rewrite Hr1 in Hfit. simpl in Hfit. apply N.leb_le in Hfit.
+        unfold rsize in Hr2. simpl in Hr2. lia.
+Qed.
+
+Lemma bstep_msg_never_dead cfg st now m :
+  cfg_ok cfg = true -> fits cfg m = true -> open_ok cfg st -> dead st = false ->
+  dead (fst (bstep_msg cfg st now m)) = false.
+Proof.
+  intros Hc Hfit Ho Hd. pose proof (cfg_ok_workers cfg Hc) as Hw.
+  rewrite bstep_msg_eq by assumption. cbv zeta.
+  set (st1 := feed_state cfg st now m). set (ob0 := cur_ob cfg st now (m_pkey m)).
+  assert (Hk0 : b_kind (ob_batch ob0) = c_kind cfg).
+  { unfold ob0, cur_ob. destruct (aget (m_pkey m) (open st)) as [ob|] eqn:E; [|reflexivity].
+    destruct (open_ok_aget cfg _ _ _ Ho E) as (_ & E2 & _). exact E2. }
+  assert (Hph : exists st2 ob2 o2,
+            (if is_full (c_limits cfg) (ob_batch ob0)
+             then let '(s, o) := send_batch cfg st1 (ob_batch ob0) in
+                  (set_open s (aset (m_pkey m) (mkOB (new_batch (c_kind cfg) (m_pkey m)) now now) (open s)),
+                   mkOB (new_batch (c_kind cfg) (m_pkey m)) now now, o)
+             else (st1, ob0, [])) = (st2, ob2, o2) /\
+            has_fatal o2 = false /\ dead st2 = false /\
+            b_kind (ob_batch ob2) = c_kind cfg /\ is_full (c_limits cfg) (ob_batch ob2) = false).
+  { destruct (is_full (c_limits cfg) (ob_batch ob0)) eqn:Ef.
+    - rewrite send_batch_spec. do 3 eexists. split; [reflexivity|].
+      split; [now apply send_no_fatal|]. split; [reflexivity|]. split; [reflexivity|].
+      simpl. now apply new_not_full.
+    - exists st1, ob0, []. auto. }
+  destruct Hph as (st2 & ob2 & o2 & -> & -> & Hd2 & Hk2 & Hnf2).
+  destruct (is_marker m) eqn:Hm; [exact Hd2|].
+  destruct (add_to_batch 2 cfg st2 (ob_batch ob2) m) as [[[st3 b3] s] o3] eqn:E3.
+  pose proof (add_to_batch_never_fatal cfg _ _ _ _ _ _ _ Hc Hfit Hm Hk2 Hnf2 E3) as Hs.
+  destruct s; try discriminate; reflexivity.
+Qed.
+
+Lemma arun_open_ok cfg acts g g' t : arun cfg g acts = Some (g', t) -> open_ok cfg (g_st g) -> open_ok cfg (g_st g').
+Proof.
+  intros H Ho.
+  refine (arun_inv cfg (fun g _ => open_ok cfg (g_st g)) _ acts g [] g' t Ho H).
+  intros g0 t0 a g1 t1 Ho0 Hs. eapply open_ok_step; eauto.
+Qed.
+
+Definition msgs_of (evs : list bevent) : list msg :=
+  flat_map (fun e => match e with BMsg _ m => [m] | _ => [] end) evs.
+
+Lemma brun_never_dead cfg : cfg_ok cfg = true -> forall evs st,
+  forallb (fits cfg) (msgs_of evs) = true -> open_ok cfg st -> dead st = false ->
+  dead (fst (brun cfg st evs)) = false.
+Proof.
+  intros Hc. pose proof (cfg_ok_workers cfg Hc) as Hw.
+  induction evs as [|e r IH]; intros st Hfit Ho Hd; simpl; [assumption|].
+  destruct (bstep cfg st e) as [st1 t1] eqn:E1. destruct (brun cfg st1 r) as [st2 t2] eqn:E2.
+  simpl. change st2 with (fst (st2, t2)). rewrite <- E2.
+  simpl in Hfit. rewrite forallb_app in Hfit. apply andb_prop in Hfit. destruct Hfit as [Hf1 Hf2].
+  destruct e as [now m|now order pops]; simpl in E1.
+  - rewrite Hd in E1. destruct (bstep_msg cfg st now m) as [sx ox] eqn:Em. inversion E1; subst.
+    simpl in Hf1. rewrite andb_true_r in Hf1.
+    pose proof (bstep_msg_never_dead cfg st now m Hc Hf1 Ho Hd) as Hd1. rewrite Em in Hd1. simpl in Hd1.
+    destruct (bstep_msg_refines cfg st now m st1 ox [] Hw Hd Em Hd1) as [acts Ha].
+    apply IH; auto. exact (arun_open_ok cfg acts _ _ _ Ha Ho).
+  - destruct (bstep_tick cfg st now order pops) as [[sx ox]|] eqn:Et.
+    + inversion E1; subst.
+      destruct (bstep_tick_refines cfg st now order pops st1 ox [] Hw Hd Et) as [Hd1 [acts Ha]].
+      apply IH; auto. exact (arun_open_ok cfg acts _ _ _ Ha Ho).
+    + inversion E1; subst. apply IH; auto.
+Qed.
+
+(* under the domain hypotheses the batcher never stops *)
+Lemma run_never_dead cfg evs st t :
+  cfg_ok cfg = true -> forallb (fits cfg) (msgs_of evs) = true -> brun cfg binit evs = (st, t) -> dead st = false.
+Proof.
+  intros Hc Hf H. pose proof (brun_never_dead cfg Hc evs binit Hf (open_ok_init cfg) eq_refl) as Hd.
+  now rewrite H in Hd.
+Qed.
+
+(* ================= the tick (C16) ================= *)
+(* what a flushed batch looks like on the wire: the batch, or only its transactions if it is empty *)
+Definition payload (b : batch) : batch + txmap := if is_empty b then inr (b_txns b) else inl b.
+Definition payloads (o : list bout) : list (batch + txmap) :=
+  flat_map (fun x => match x with OBatch _ b => [inl b] | OEmptyWritten t => [inr t] | _ => [] end) o.
+
+Lemma payloads_app a b : payloads (a ++ b) = payloads a ++ payloads b.
+Proof. apply flat_map_app. Qed.
+
+Lemma payloads_send cfg st b : workers_ok cfg -> payloads (seen_part st ++ [sent_body cfg st b]) = [payload b].
+Proof.
+  intros Hw. unfold seen_part, sent_body, payload. destruct (seenl st); simpl; destruct (is_empty b); simpl; auto;
+    destruct (route_some cfg st b Hw) as [w ->]; reflexivity.
+Qed.
+
+(* the keys a flush really acts on: present, first occurrence *)
+Fixpoint eff (opn : list (string * obatch)) (ks : list string) : list (string * obatch) :=
+  match ks with
+  | [] => []
+  | k :: r => match aget k opn with
+              | None => eff opn r
+              | Some ob => (k, ob) :: eff (adel k opn) r
+              end
+  end.
+
+Lemma flush_keys_spec cfg : workers_ok cfg -> forall ks st st' o,
+  flush_keys cfg st ks = (st', o) ->
+  payloads o = map (fun kv => payload (ob_batch (snd kv))) (eff (open st) ks) /\
+  (forall p, In p (open st') <-> In p (open st) /\ ~ In (fst p) ks) /\
+  dead st' = dead st.
+Proof.
+  intros Hw. induction ks as [|k r IH]; intros st st' o H; simpl in H.
+  - inversion H; subst. simpl. split; [reflexivity|]. split; [tauto|reflexivity].
+  - simpl eff. destruct (aget k (open st)) as [ob|] eqn:Hg.
+    + rewrite send_batch_spec in H.
+      change (existsb _ ?x) with (has_fatal x) in H. rewrite send_no_fatal in H by assumption.
+      destruct (flush_keys cfg _ r) as [st2 o2] eqn:E. inversion H; subst.
+      destruct (IH _ _ _ E) as (I1 & I2 & I3). simpl in I1, I2, I3.
+      split; [rewrite payloads_app, payloads_send, I1 by assumption; reflexivity|].
+      split; [|assumption].
+      intros p. rewrite I2, in_adel_iff. simpl. intuition.
+    + destruct (IH _ _ _ H) as (I1 & I2 & I3). split; [assumption|]. split; [|assumption].
+      intros p. rewrite I2. simpl. split; [|tauto]. intros [Hin Hn]. split; [assumption|].
+      intros [->|Hr]; [|tauto]. apply (aget_none_notin _ _ Hg). now apply in_map.
+Qed.
+
+Lemma eff_in opn : forall ks k ob, NoDup (map fst opn) ->
+  (In (k, ob) (eff opn ks) <-> In k ks /\ In (k, ob) opn).
+Proof.
+  intros ks. revert opn. induction ks as [|k0 r IH]; intros opn k ob Hnd; simpl; [tauto|].
+  destruct (aget k0 opn) as [ob0|] eqn:Hg.
+  - simpl. rewrite IH by now apply nodup_adel. rewrite in_adel_iff. simpl. split.
+    + intros [E|[H1 [H2 H3]]]; [inversion E; subst; split; [now left|now apply aget_some_in]|tauto].
+    + intros [[->|H1] H2].
+      * left. f_equal. pose proof (in_nodup_aget _ _ _ Hnd H2) as E. congruence.
+      * destruct (String.eqb_spec k k0) as [->|Hne]; [|tauto].
+        left. f_equal. pose proof (in_nodup_aget _ _ _ Hnd H2) as E. congruence.
+  - rewrite IH by assumption. split; [tauto|]. intros [[->|H1] H2]; [|tauto].
+    exfalso. apply (aget_none_notin _ _ Hg). change k with (fst (k, ob)). now apply in_map.
+Qed.
+
+Lemma eff_nodup opn : forall ks, NoDup (map fst (eff opn ks)).
+Proof.
+  intros ks. revert opn. induction ks as [|k0 r IH]; intros opn; simpl; [constructor|].
+  destruct (aget k0 opn) as [ob0|] eqn:Hg; [|apply IH]. simpl. constructor; [|apply IH].
+  intros Hin. apply in_map_iff in Hin. destruct Hin as ([k ob] & E & Hin). simpl in E. subst k.
+  assert (Hsub : forall ks opn p, In p (eff opn ks) -> In p opn).
+  { clear. induction ks as [|k r IH]; intros opn p; simpl; [tauto|].
+    destruct (aget k opn) as [ob|] eqn:Hg; [|apply IH]. intros [<-|H]; [now apply aget_some_in|].
+    apply IH in H. apply in_adel_iff in H. tauto. }
+  apply Hsub in Hin. apply in_adel_iff in Hin. simpl in Hin. tauto.
+Qed.
+
+Lemma in_filter_keys (f : string -> bool) l k : In k (filter f l) <-> In k l /\ f k = true.
+Proof. apply filter_In. Qed.
+
+Lemma is_perm_keys_spec order st : is_perm_of_keys order st = true ->
+  List.length order = List.length (open st) /\
+  (forall k, In k (map fst (open st)) -> In k order) /\
+  (forall k, In k order -> aget k (open st) <> None).
+Proof.
+  unfold is_perm_of_keys. intros H. apply andb_prop in H. destruct H as [H H3].
+  apply andb_prop in H. destruct H as [H1 H2]. apply Nat.eqb_eq in H1. split; [assumption|]. split.
+  - intros k Hk. apply in_map_iff in Hk. destruct Hk as (p & <- & Hp).
+    rewrite forallb_forall in H2. specialize (H2 _ Hp). now apply existsb_eqb_in in H2.
+  - intros k Hk. rewrite forallb_forall in H3. specialize (H3 _ Hk).
+    destruct (aget k (open st)); [discriminate|discriminate].
+Qed.
+
+Lemma mem_flush_pops fuel cfg st : forall remaining tot pops mf,
+  mem_flush fuel cfg st remaining tot pops = Some mf -> mf = pops.
+Proof.
+  induction fuel as [|f IH]; intros remaining tot pops mf H; simpl in H.
+  - destruct (tot <? c_mem_limit cfg)%Z; [destruct pops; [now inversion H|discriminate]|discriminate].
+  - destruct (tot <? c_mem_limit cfg)%Z; [destruct pops; [now inversion H|discriminate]|].
+    destruct pops as [|k pops']; [discriminate|].
+    destruct (aget k (open st)) as [ob|]; [|discriminate].
+    destruct (_ && _); [|discriminate].
+    destruct (mem_flush f cfg st _ _ pops') as [l|] eqn:E; [|discriminate].
+    inversion H; subst. f_equal. eapply IH; eauto.
+Qed.
+
+(* C16_age *)
+Lemma tick_age cfg st now order pops st' outs :
+  workers_ok cfg -> NoDup (map fst (open st)) -> dead st = false ->
+  bstep_tick cfg st now order pops = Some (st', outs) ->
+  dead st' = false /\
+  (* what stays open is unchanged and neither empty, full, stale nor old *)
+  (forall k ob, In (k, ob) (open st') ->
+     In (k, ob) (open st) /\ is_empty (ob_batch ob) = false /\ is_full (c_limits cfg) (ob_batch ob) = false /\
+     (now - c_max_age cfg <= ob_ctime ob)%Z /\ (now - c_upd_age cfg <= ob_mtime ob)%Z) /\
+  (* what is no longer open went out, exactly once, as a batch or (if empty) as its transactions *)
+  exists flushed, NoDup (map fst flushed) /\
+    (forall k ob, In (k, ob) flushed <-> In (k, ob) (open st) /\ ~ In (k, ob) (open st')) /\
+    payloads outs = map (fun kv => payload (ob_batch (snd kv))) flushed.
+Proof.
+  intros Hw Hnd Hd H. unfold bstep_tick in H. rewrite Hd in H.
+  destruct (negb (is_perm_of_keys order st)) eqn:Hperm; [discriminate|]. apply negb_false_iff in Hperm.
+  destruct (mem_flush _ cfg st _ _ pops) as [mf|] eqn:Hmf; [|discriminate].
+  inversion H as [Hfk]. clear H.
+  destruct (flush_keys_spec cfg Hw _ _ _ _ Hfk) as (P1 & P2 & P3).
+  destruct (is_perm_keys_spec _ _ Hperm) as (_ & Hall & Hpres).
+  split; [congruence|]. split.
+  - intros k ob Hin. apply P2 in Hin. simpl in Hin. destruct Hin as [Hin Hnot].
+    split; [assumption|].
+    assert (Hk : In k order) by (apply Hall; change k with (fst (k, ob)); now apply in_map).
+    assert (Hfl : flagged cfg now ob = false).
+    { destruct (flagged cfg now ob) eqn:Ef; [|reflexivity]. exfalso. apply Hnot. apply in_or_app. left.
+      unfold rule_flush. apply filter_In. split; [assumption|].
+      now rewrite (in_nodup_aget _ _ _ Hnd Hin). }
+    unfold flagged in Hfl. apply orb_false_elim in Hfl. destruct Hfl as [Hfl F4].
+    apply orb_false_elim in Hfl. destruct Hfl as [Hfl F3].
+    apply orb_false_elim in Hfl. destruct Hfl as [F1 F2].
+    apply Z.ltb_ge in F2, F3. auto.
+  - exists (eff (open st) (rule_flush cfg now st order ++ mf)).
+    split; [apply eff_nodup|]. split; [|assumption].
+    intros k ob. rewrite eff_in by assumption. rewrite P2. simpl.
+    destruct (in_dec string_dec k (rule_flush cfg now st order ++ mf)); tauto.
+Qed.
+
+(* ---------- memory pressure (C16_memory) ---------- *)
+Definition gb (st : bstate) (k : string) : Z :=
+  match aget k (open st) with Some ob => bytes_of ob | None => 0%Z end.
+Definition open_bytes (st : bstate) : Z := zsum (fun kv => bytes_of (snd kv)) (open st).
+
+Lemma kept_total_zsum st ks : kept_total st ks = zsum (gb st) ks.
+Proof. reflexivity. Qed.
+
+Lemma gb_nonneg st k : (0 <= gb st k)%Z.
+Proof. unfold gb, bytes_of. destruct (aget k (open st)); lia. Qed.
+
+Lemma zsum_perm {A} (f : A -> Z) l l' : Permutation l l' -> zsum f l = zsum f l'.
+Proof.
+  induction 1; try reflexivity.
+  - rewrite !zsum_cons. lia.
+  - rewrite !zsum_cons. lia.
+  - congruence.
+Qed.
+
+Lemma zsum_remove st k : forall l, NoDup l -> In k l ->
+  zsum (gb st) (filter (fun k' => negb (String.eqb k k')) l) = (zsum (gb st) l - gb st k)%Z.
+Proof.
+  induction l as [|x l IH]; intros Hnd Hin; [destruct Hin|]. inversion Hnd; subst. simpl filter.
+  destruct (String.eqb_spec k x) as [->|Hne]; simpl.
+  - rewrite zsum_cons.
+    assert (E : filter (fun k' => negb (String.eqb x k')) l = l).
+    { clear -H1. induction l as [|y l IH]; simpl; [reflexivity|].
+      destruct (String.eqb_spec x y) as [->|]; simpl; [exfalso; apply H1; now left|].
+      rewrite IH; [reflexivity|]. intros H; apply H1; now right. }
+    rewrite E. lia.
+  - destruct Hin as [->|Hin]; [congruence|]. rewrite !zsum_cons, IH by assumption. lia.
+Qed.
+
+Lemma filter_notin_cons k mf (l : list string) :
+  filter (fun k' => negb (existsb (String.eqb k') (k :: mf))) l =
+  filter (fun k' => negb (existsb (String.eqb k') mf)) (filter (fun k' => negb (String.eqb k k')) l).
+Proof.
+  induction l as [|x l IH]; simpl in *; [reflexivity|].
+  rewrite (String.eqb_sym x k). destruct (String.eqb k x); simpl; [assumption|].
+  destruct (existsb (String.eqb x) mf); simpl; now rewrite IH.
+Qed.
+
+Definition not_in (mf : list string) (k : string) : bool := negb (existsb (String.eqb k) mf).
+
+Lemma mem_flush_spec cfg st : forall fuel remaining tot pops mf,
+  NoDup remaining -> mem_flush fuel cfg st remaining tot pops = Some mf -> tot = kept_total st remaining ->
+  (kept_total st (filter (not_in mf) remaining) < c_mem_limit cfg)%Z /\
+  ((tot < c_mem_limit cfg)%Z -> mf = []) /\
+  (forall k, In k mf -> In k remaining /\ aget k (open st) <> None /\
+                        forall k', In k' (filter (not_in mf) remaining) -> (gb st k' <= gb st k)%Z).
+Proof.
+  induction fuel as [|f IH]; intros remaining tot pops mf Hnd H Htot; simpl in H.
+  - destruct (Z.ltb_spec tot (c_mem_limit cfg)) as [Hlt|Hge]; [|discriminate].
+    destruct pops; [|discriminate]. inversion H; subst mf.
+    assert (E : filter (not_in []) remaining = remaining).
+    { clear. induction remaining as [|x l IH]; simpl; [reflexivity|]. now rewrite IH. }
+    rewrite E. split; [lia|]. split; [reflexivity|]. intros k [].
+  - destruct (Z.ltb_spec tot (c_mem_limit cfg)) as [Hlt|Hge].
+    { destruct pops; [|discriminate]. inversion H; subst mf.
+      assert (E : filter (not_in []) remaining = remaining).
+      { clear. induction remaining as [|x l IH]; simpl; [reflexivity|]. now rewrite IH. }
+      rewrite E. split; [lia|]. split; [reflexivity|]. intros k []. }
+    destruct pops as [|k pops']; [discriminate|].
+    destruct (aget k (open st)) as [ob|] eqn:Hg; [|discriminate].
+    destruct (existsb (String.eqb k) remaining) eqn:Hex; [|discriminate]. simpl in H.
+    destruct (forallb _ remaining) eqn:Hmax; [|discriminate].
+    destruct (mem_flush f cfg st _ _ pops') as [l|] eqn:E; [|discriminate].
+    inversion H; subst mf. clear H.
+    apply existsb_eqb_in in Hex.
+    assert (Hgk : gb st k = bytes_of ob) by (unfold gb; now rewrite Hg).
+    assert (Htot1 : (tot - bytes_of ob)%Z = kept_total st (filter (fun k' => negb (String.eqb k k')) remaining)).
+    { rewrite Htot, !kept_total_zsum, zsum_remove by assumption. rewrite Hgk. lia. }
+    destruct (IH _ _ _ _ (NoDup_filter _ Hnd) E Htot1) as (I1 & I2 & I3).
+    unfold not_in in *. rewrite filter_notin_cons.
+    split; [assumption|]. split; [lia|].
+    intros k0 [<-|Hk0].
+    + split; [assumption|]. split; [congruence|].
+      intros k' Hk'. apply filter_In in Hk'. destruct Hk' as [Hk' _]. apply filter_In in Hk'. destruct Hk' as [Hk' _].
+      rewrite forallb_forall in Hmax. specialize (Hmax _ Hk'). rewrite Hgk. unfold gb.
+      destruct (aget k' (open st)); [now apply Z.leb_le|unfold bytes_of; lia].
+    + destruct (I3 _ Hk0) as (J1 & J2 & J3). apply filter_In in J1. tauto.
+Qed.
+
+Lemma flush_keys_nodup cfg : forall ks st st' o,
+  flush_keys cfg st ks = (st', o) -> NoDup (map fst (open st)) -> NoDup (map fst (open st')).
+Proof.
+  induction ks as [|k r IH]; intros st st' o H Hnd; simpl in H.
+  - now inversion H; subst.
+  - destruct (aget k (open st)) as [ob|]; [|eauto].
+    rewrite send_batch_spec in H. destruct (existsb _ _).
+    + inversion H; subst. assumption.
+    + destruct (flush_keys cfg _ r) as [st2 o2] eqn:E. inversion H; subst.
+      apply (IH _ _ _ E). simpl. now apply nodup_adel.
+Qed.
+
+Lemma zsum_keys {V} (f : string * V -> Z) (g : string -> Z) l :
+  (forall p, In p l -> f p = g (fst p)) -> zsum f l = zsum g (map fst l).
+Proof.
+  induction l as [|p l IH]; intros H; [reflexivity|]. simpl map. rewrite !zsum_cons, IH.
+  - rewrite H; [reflexivity|now left].
+  - intros q Hq. apply H. now right.
+Qed.
+
+(* C16_memory *)
+Lemma tick_memory cfg st now order pops st' outs :
+  workers_ok cfg -> NoDup (map fst (open st)) -> dead st = false ->
+  bstep_tick cfg st now order pops = Some (st', outs) ->
+  (open_bytes st' < c_mem_limit cfg)%Z /\
+  (forall k ob k' ob', In k pops -> aget k (open st) = Some ob -> In (k', ob') (open st') ->
+                       (bytes_of ob' <= bytes_of ob)%Z) /\
+  (forall k, In k pops -> exists ob, In (k, ob) (open st) /\ flagged cfg now ob = false /\ ~ In (k, ob) (open st')) /\
+  ((kept_total st (kept_keys cfg now st order) < c_mem_limit cfg)%Z -> pops = []).
+Proof.
+  intros Hw Hnd Hd H. unfold bstep_tick in H. rewrite Hd in H.
+  destruct (negb (is_perm_of_keys order st)) eqn:Hperm; [discriminate|]. apply negb_false_iff in Hperm.
+  destruct (mem_flush _ cfg st _ _ pops) as [mf|] eqn:Hmf; [|discriminate].
+  inversion H as [Hfk]. clear H.
+  pose proof (mem_flush_pops _ _ _ _ _ _ _ Hmf) as ->.
+  destruct (flush_keys_spec cfg Hw _ _ _ _ Hfk) as (P1 & P2 & P3).
+  destruct (is_perm_keys_spec _ _ Hperm) as (Hlen & Hall & Hpres).
+  assert (Hnd_order : NoDup order).
+  { apply (NoDup_incl_NoDup Hnd); [rewrite map_length; lia|exact Hall]. }
+  set (kept := kept_keys cfg now st order) in *.
+  assert (Hnd_kept : NoDup kept) by (apply NoDup_filter; assumption).
+  destruct (mem_flush_spec cfg st _ _ _ _ _ Hnd_kept Hmf eq_refl) as (M1 & M2 & M3).
+  (* membership in kept *)
+  assert (Hkept : forall k, In k kept <-> exists ob, In (k, ob) (open st) /\ flagged cfg now ob = false).
+  { intros k. unfold kept, kept_keys. rewrite filter_In. split.
+    - intros [Hk Hf]. destruct (aget k (open st)) as [ob|] eqn:Hg; [|discriminate].
+      exists ob. split; [now apply aget_some_in|now apply negb_true_iff in Hf].
+    - intros (ob & Hin & Hf). split; [apply Hall; change k with (fst (k, ob)); now apply in_map|].
+      rewrite (in_nodup_aget _ _ _ Hnd Hin), Hf. reflexivity. }
+  assert (Hrule : forall k, In k (rule_flush cfg now st order) <-> exists ob, In (k, ob) (open st) /\ flagged cfg now ob = true).
+  { intros k. unfold rule_flush. rewrite filter_In. split.
+    - intros [Hk Hf]. destruct (aget k (open st)) as [ob|] eqn:Hg; [|discriminate].
+      exists ob. split; [now apply aget_some_in|assumption].
+    - intros (ob & Hin & Hf). split; [apply Hall; change k with (fst (k, ob)); now apply in_map|].
+      now rewrite (in_nodup_aget _ _ _ Hnd Hin). }
+  (* the keys still open are exactly the kept keys that were not popped *)
+  assert (Hmem : forall k, In k (map fst (open st')) <-> In k (filter (not_in pops) kept)).
+  { intros k. rewrite filter_In, Hkept. unfold not_in. split.
+    - intros Hk. apply in_map_iff in Hk. destruct Hk as ([k0 ob] & <- & Hin). simpl.
+      apply P2 in Hin. simpl in Hin. destruct Hin as [Hin Hnot]. split.
+      + exists ob. split; [assumption|]. destruct (flagged cfg now ob) eqn:Ef; [|reflexivity].
+        exfalso. apply Hnot. apply in_or_app. left. apply Hrule. eauto.
+      + apply negb_true_iff. destruct (existsb (String.eqb k0) pops) eqn:Ee; [|reflexivity].
+        exfalso. apply Hnot. apply in_or_app. right. now apply existsb_eqb_in.
+    - intros [(ob & Hin & Hf) Hnp]. apply negb_true_iff in Hnp.
+      change k with (fst (k, ob)). apply in_map. apply P2. simpl. split; [assumption|].
+      intros Hbad. apply in_app_or in Hbad. destruct Hbad as [Hbad|Hbad].
+      + apply Hrule in Hbad. destruct Hbad as (ob2 & Hin2 & Hf2).
+        pose proof (in_nodup_aget _ _ _ Hnd Hin). pose proof (in_nodup_aget _ _ _ Hnd Hin2). congruence.
+      + apply existsb_eqb_in in Hbad. congruence. }
+  assert (Hnd' : NoDup (map fst (open st'))) by (eapply flush_keys_nodup; eauto).
+  assert (Hbytes : open_bytes st' = kept_total st (filter (not_in pops) kept)).
+  { unfold open_bytes. rewrite kept_total_zsum.
+    rewrite (zsum_keys _ (gb st)).
+    - apply zsum_perm. apply NoDup_Permutation; [assumption|now apply NoDup_filter|exact Hmem].
+    - intros [k ob] Hin. apply P2 in Hin. simpl in *. destruct Hin as [Hin _].
+      unfold gb. now rewrite (in_nodup_aget _ _ _ Hnd Hin). }
+  split; [rewrite Hbytes; exact M1|]. split; [|split].
+  - intros k ob k' ob' Hk Hg Hin'. destruct (M3 _ Hk) as (_ & _ & Hmax).
+    assert (Hk' : In k' (filter (not_in pops) kept)).
+    { apply Hmem. change k' with (fst (k', ob')). now apply in_map. }
+    specialize (Hmax _ Hk'). unfold gb in Hmax. rewrite Hg in Hmax.
+    apply P2 in Hin'. simpl in Hin'. destruct Hin' as [Hin' _].
+    now rewrite (in_nodup_aget _ _ _ Hnd Hin') in Hmax.
+  - intros k Hk. destruct (M3 _ Hk) as (Hk1 & _ & _). apply Hkept in Hk1. destruct Hk1 as (ob & Hin & Hf).
+    exists ob. split; [assumption|]. split; [assumption|]. intros Hin'. apply P2 in Hin'. simpl in Hin'.
+    destruct Hin' as [_ Hnot]. apply Hnot. apply in_or_app. now right.
+  - exact M2.
+Qed.
+
+(* ---------- the tick is never stuck: admissible oracles exist (C16_oracle_exists) ---------- *)
+Lemma exists_max (g : string -> Z) l : l <> [] -> exists k, In k l /\ forall k', In k' l -> (g k' <= g k)%Z.
+Proof.
+  induction l as [|x l IH]; [congruence|]. intros _. destruct l as [|y l'].
+  - exists x. split; [now left|]. intros k' [<-|[]]. lia.
+  - destruct IH as (k & Hk & Hmax); [discriminate|].
+    destruct (Z.le_gt_cases (g k) (g x)).
+    + exists x. split; [now left|]. intros k' [<-|Hk']; [lia|]. specialize (Hmax _ Hk'). lia.
+    + exists k. split; [now right|]. intros k' [<-|Hk']; [lia|]. auto.
+Qed.
+
+Lemma filter_len_le {A} (f : A -> bool) l : (List.length (filter f l) <= List.length l)%nat.
+Proof. induction l as [|x l IH]; simpl; [lia|]. destruct (f x); simpl; lia. Qed.
+
+Lemma filter_remove_length k (l : list string) : In k l ->
+  (List.length (filter (fun k' => negb (String.eqb k k')) l) < List.length l)%nat.
+Proof.
+  induction l as [|x l IH]; intros Hin; [destruct Hin|]. simpl.
+  destruct (String.eqb_spec k x) as [->|Hne]; simpl.
+  - pose proof (filter_len_le (fun k' => negb (String.eqb x k')) l). lia.
+  - destruct Hin as [->|Hin]; [congruence|]. specialize (IH Hin). lia.
+Qed.
+
+Lemma mem_flush_exists cfg st : (0 < c_mem_limit cfg)%Z -> forall fuel remaining,
+  NoDup remaining -> (forall k, In k remaining -> aget k (open st) <> None) ->
+  (List.length remaining < fuel)%nat ->
+  exists pops, mem_flush fuel cfg st remaining (kept_total st remaining) pops = Some pops.
+Proof.
+  intros Hlim. induction fuel as [|f IH]; intros remaining Hnd Hpres Hlen; [lia|]. simpl.
+  destruct (Z.ltb_spec (kept_total st remaining) (c_mem_limit cfg)) as [Hlt|Hge].
+  - exists []. reflexivity.
+  - assert (Hne : remaining <> []) by (intros ->; unfold kept_total, sum_Z in Hge; simpl in Hge; lia).
+    destruct (exists_max (gb st) remaining Hne) as (k & Hk & Hmax).
+    destruct (aget k (open st)) as [ob|] eqn:Hg; [|exfalso; now apply (Hpres k)].
+    assert (Hgk : gb st k = bytes_of ob) by (unfold gb; now rewrite Hg).
+    destruct (IH (filter (fun k' => negb (String.eqb k k')) remaining)) as [pops' Hp].
+    + now apply NoDup_filter.
+    + intros k' Hk'. apply filter_In in Hk'. apply Hpres. tauto.
+    + pose proof (filter_remove_length k remaining Hk). lia.
+    + exists (k :: pops'). rewrite Hg.
+      assert (E1 : existsb (String.eqb k) remaining = true) by now apply existsb_eqb_in.
+      rewrite E1. simpl.
+      assert (E2 : forallb (fun k' => match aget k' (open st) with
+                                      | Some ob' => (bytes_of ob' <=? bytes_of ob)%Z | None => true end) remaining = true).
+      { apply forallb_forall. intros k' Hk'. specialize (Hmax _ Hk'). rewrite Hgk in Hmax. unfold gb in Hmax.
+        destruct (aget k' (open st)); [now apply Z.leb_le|reflexivity]. }
+      rewrite E2.
+      replace (kept_total st remaining - bytes_of ob)%Z
+        with (kept_total st (filter (fun k' => negb (String.eqb k k')) remaining)).
+      * now rewrite Hp.
+      * rewrite !kept_total_zsum, zsum_remove by assumption. now rewrite Hgk.
+Qed.
+
+Lemma in_keys_aget {V} (k : string) (m : list (string * V)) : In k (map fst m) -> aget k m <> None.
+Proof. intros H E. exact (aget_none_notin _ _ E H). Qed.
+
+Lemma tick_oracle_exists cfg st now :
+  (0 < c_mem_limit cfg)%Z -> NoDup (map fst (open st)) ->
+  exists pops r, bstep_tick cfg st now (map fst (open st)) pops = Some r.
+Proof.
+  intros Hlim Hnd. unfold bstep_tick. destruct (dead st); [exists [], (st, []); reflexivity|].
+  assert (Hperm : is_perm_of_keys (map fst (open st)) st = true).
+  { unfold is_perm_of_keys. rewrite map_length, Nat.eqb_refl. simpl. apply andb_true_intro. split.
+    - apply forallb_forall. intros p Hp. apply existsb_eqb_in. now apply in_map.
+    - apply forallb_forall. intros k Hk. apply in_keys_aget in Hk. destruct (aget k (open st)); congruence. }
+  rewrite Hperm. simpl negb. cbv iota.
+  set (kept := kept_keys cfg now st (map fst (open st))).
+  destruct (mem_flush_exists cfg st Hlim (S (List.length kept)) kept) as [pops Hp].
+  - apply NoDup_filter. assumption.
+  - intros k Hk. unfold kept, kept_keys in Hk. apply filter_In in Hk. destruct Hk as [_ Hk].
+    destruct (aget k (open st)); [discriminate|discriminate].
+  - lia.
+  - exists pops. rewrite Hp. eexists. reflexivity.
+Qed.
+
+(* ---------- packaged statements used by props/ ---------- *)
+Lemma run_conservation_full cfg evs st t :
+  workers_ok cfg -> brun cfg binit evs = (st, t) -> dead st = false ->
+  Permutation (map m_id (filter (fun m => change m && accepted cfg m) (fed t)))
+              (flat_map (fun wb => ids (snd wb)) (dispatched t) ++ open_ids st) /\
+  drops_big st = N.of_nat (List.length (filter (fun m => change m && is_big cfg m) (fed t))) /\
+  drops_invalid st = N.of_nat (List.length (filter (fun m => change m && is_invalid cfg m) (fed t))).
+Proof.
+  intros Hw H Hd. split; [eapply run_conservation; eauto|eapply run_drops; eauto].
+Qed.
+
+(* the same on the stated domain, where "not dead" is a consequence instead of a hypothesis *)
+Lemma run_conservation_domain cfg evs st t :
+  cfg_ok cfg = true -> forallb (fits cfg) (msgs_of evs) = true -> brun cfg binit evs = (st, t) ->
+  dead st = false /\ fed t = msgs_of evs /\
+  Permutation (map m_id (filter (fun m => change m && accepted cfg m) (fed t)))
+              (flat_map (fun wb => ids (snd wb)) (dispatched t) ++ open_ids st) /\
+  drops_big st = N.of_nat (List.length (filter (fun m => change m && is_big cfg m) (fed t))) /\
+  drops_invalid st = N.of_nat (List.length (filter (fun m => change m && is_invalid cfg m) (fed t))).
+Proof.
+  intros Hc Hf H. pose proof (run_never_dead cfg evs st t Hc Hf H) as Hd.
+  split; [assumption|]. split; [|apply run_conservation_full with (evs := evs); auto using cfg_ok_workers].
+  (* everything offered was received: no step was skipped because of a dead batcher *)
+  clear Hf. revert st t H Hd. generalize binit. induction evs as [|e r IH]; intros st0 st t H Hd; simpl in H.
+  - inversion H; subst. reflexivity.
+  - destruct (bstep cfg st0 e) as [st1 t1] eqn:E1. destruct (brun cfg st1 r) as [st2 t2] eqn:E2.
+    inversion H; subst. rewrite fed_app. simpl msgs_of.
+    destruct (dead st1) eqn:Hd1.
+    { rewrite brun_dead in E2 by assumption. inversion E2; subst. congruence. }
+    rewrite (IH _ _ _ E2 Hd). f_equal.
+    destruct e as [now m|now order pops]; simpl in E1.
+    + destruct (dead st0) eqn:Hd0; [inversion E1; subst; congruence|].
+      destruct (bstep_msg cfg st0 now m) as [sx ox]. inversion E1; subst.
+      now rewrite fed_cons_feed, fed_outs.
+    + destruct (bstep_tick cfg st0 now order pops) as [[sx ox]|]; inversion E1; subst; [apply fed_outs|reflexivity].
+Qed.
+
+Lemma run_wf cfg evs st t :
+  workers_ok cfg -> brun cfg binit evs = (st, t) -> dead st = false -> NoDup (map fst (open st)).
+Proof.
+  intros Hw H Hd. destruct (brun_machine cfg evs st t Hw H Hd) as [acts Ha].
+  destruct (struct_inv cfg acts _ _ Ha) as [[Hnd _] _]. exact Hnd.
+Qed.
+
+(* with limits that leave room for a key of [bound] bytes beside a maximal record, every message whose
+   Kinesis partition key has at most [bound] bytes satisfies [fits] *)
+Lemma fits_bounded_key L bound : (max_record_bytes L + bound <= max_batch_bytes L)%N ->
+  forall cfg meth m, c_kind cfg = BKinesis meth -> c_limits cfg = L ->
+  (N.of_nat (String.length (pk_of meth m)) <= bound)%N -> fits cfg m = true.
+Proof.
+  intros HL cfg meth m Hk HLc Hb. unfold fits. rewrite Hk, HLc.
+  destruct (is_marker m); [reflexivity|]. simpl.
+  destruct (N.ltb_spec (max_record_bytes L) (m_jlen m)); [reflexivity|]. simpl.
+  apply N.leb_le. lia.
+Qed.
+
+(* ================= runs that stop fatally: what was sent before is still a machine trace ================= *)
+Lemma add_to_batch_sends cfg (now : Z) : forall fuel st b m st3 b3 s o3 ct mt added,
+  add_to_batch fuel cfg st b m = (st3, b3, s, o3) -> dead st = false ->
+  exists acts g', arun cfg (mkG (with_ob st (m_pkey m) (mkOB b ct mt)) added (Some m)) acts = Some (g', map TOut o3).
+Proof.
+  induction fuel as [|f IH]; intros st b m st3 b3 s o3 ct mt added H Hd; simpl in H;
+    destruct (add (c_limits cfg) b m) as [b' r] eqn:Ha.
+  - exists [], (mkG (with_ob st (m_pkey m) (mkOB b ct mt)) added (Some m)).
+    destruct r; inversion H; subst; reflexivity.
+  - destruct r; try (exists [], (mkG (with_ob st (m_pkey m) (mkOB b ct mt)) added (Some m));
+                     inversion H; subst; reflexivity).
+    rewrite send_batch_spec in H.
+    destruct (add_to_batch f cfg (sent_state cfg st b) (new_batch (c_kind cfg) (m_pkey m)) m)
+      as [[[st2 b2] s2] o2] eqn:E.
+    inversion H; subst. clear H.
+    destruct (IH _ _ _ _ _ _ _ now now added E Hd) as (acts & g' & Hacts).
+    exists (ASend (m_pkey m) (Some now) :: acts), g'.
+    cbn [arun]. rewrite astep_send_with_ob by assumption. rewrite Hacts. f_equal. f_equal. symmetry. apply map_app.
+Qed.
+
+Lemma bstep_msg_fatal cfg st now m st' o added :
+  workers_ok cfg -> dead st = false -> bstep_msg cfg st now m = (st', o) -> dead st' = true ->
+  exists o' acts g', o = o' ++ [OFatal] /\
+    arun cfg (mkG st added None) acts = Some (g', TFeed m :: map TOut o').
+Proof.
+  intros Hw Hd H Hd'. rewrite bstep_msg_eq in H by assumption. cbv zeta in H.
+  assert (Hfeed : astep cfg (mkG st added None) (AFeed now m) =
+                  Some (mkG (feed_state cfg st now m) added (if is_marker m then None else Some m), [TFeed m])).
+  { unfold astep. simpl. now rewrite Hd. }
+  set (st1 := feed_state cfg st now m) in *.
+  set (ob0 := cur_ob cfg st now (m_pkey m)) in *.
+  pose proof (feed_state_aget cfg st now m) as Hg0. fold st1 ob0 in Hg0.
+  assert (Hd1 : dead st1 = false) by reflexivity.
+  assert (Hph1 : exists st2 ob2 o2 acts1,
+            (if is_full (c_limits cfg) (ob_batch ob0)
+             then let '(s, o) := send_batch cfg st1 (ob_batch ob0) in
+                  (set_open s (aset (m_pkey m) (mkOB (new_batch (c_kind cfg) (m_pkey m)) now now) (open s)),
+                   mkOB (new_batch (c_kind cfg) (m_pkey m)) now now, o)
+             else (st1, ob0, [])) = (st2, ob2, o2) /\
+            has_fatal o2 = false /\ dead st2 = false /\ aget (m_pkey m) (open st2) = Some ob2 /\
+            forall pend, arun cfg (mkG st1 added pend) acts1 = Some (mkG st2 added pend, map TOut o2)).
+  { destruct (is_full (c_limits cfg) (ob_batch ob0)).
+    - rewrite send_batch_spec. do 3 eexists. exists [ASend (m_pkey m) (Some now)].
+      split; [reflexivity|]. split; [now apply send_no_fatal|]. split; [reflexivity|].
+      split; [simpl; now rewrite aget_aset, String.eqb_refl|].
+      intros pend. apply arun_one. unfold astep. simpl g_st. rewrite Hd1, Hg0. reflexivity.
+    - exists st1, ob0, [], []. repeat split; auto. }
+  destruct Hph1 as (st2 & ob2 & o2 & acts1 & E1 & Hnf & Hd2 & Hg2 & Hrun1).
+  rewrite E1 in H. rewrite Hnf in H.
+  destruct (is_marker m) eqn:Hm.
+  { inversion H; subst. congruence. }
+  destruct (add_to_batch 2 cfg st2 (ob_batch ob2) m) as [[[st3 b3] status] o3] eqn:E3.
+  destruct (add_to_batch_sends cfg now 2 st2 (ob_batch ob2) m st3 b3 status o3
+              (ob_ctime ob2) (ob_mtime ob2) added E3 Hd2) as (acts2 & g' & Hr).
+  rewrite <- obatch_eta in Hr. rewrite (with_ob_same _ _ _ Hg2) in Hr.
+  assert (Ho : o = (o2 ++ o3) ++ [OFatal]).
+  { destruct status; inversion H; subst; try discriminate; now rewrite app_assoc. }
+  exists (o2 ++ o3), (AFeed now m :: acts1 ++ acts2), g'. split; [assumption|].
+  cbn [arun]. rewrite Hfeed. rewrite (arun_app _ _ _ _ _ _ _ _ (Hrun1 (Some m)) Hr).
+  simpl. now rewrite map_app.
+Qed.
+
+(* every trace of the model is a trace of the action machine, possibly followed by one OFatal *)
+Definition machine_trace (cfg : bcfg) (t : list tr) : Prop :=
+  exists acts g, arun cfg ginit acts = Some (g, t).
+
+Lemma brun_trace_gen cfg : workers_ok cfg -> forall evs st st' t added,
+  dead st = false -> brun cfg st evs = (st', t) ->
+  exists t0 acts g', arun cfg (mkG st added None) acts = Some (g', t0) /\ (t = t0 \/ t = t0 ++ [TOut OFatal]).
+Proof.
+  intros Hw. induction evs as [|e r IH]; intros st st' t added Hd H; simpl in H.
+  - inversion H; subst. exists [], [], (mkG st' added None). split; [reflexivity|now left].
+  - destruct (bstep cfg st e) as [st1 t1] eqn:E1. destruct (brun cfg st1 r) as [st2 t2] eqn:E2.
+    inversion H; subst. clear H.
+    destruct (dead st1) eqn:Hd1.
+    + rewrite brun_dead in E2 by assumption. inversion E2; subst. rewrite app_nil_r.
+      destruct e as [now m|now order pops]; simpl in E1.
+      * rewrite Hd in E1. destruct (bstep_msg cfg st now m) as [sx ox] eqn:Em. inversion E1; subst.
+        destruct (bstep_msg_fatal cfg st now m _ ox added Hw Hd Em Hd1) as (o' & acts & g' & -> & Ha).
+        exists (TFeed m :: map TOut o'), acts, g'. split; [assumption|]. right.
+        simpl. now rewrite map_app.
+      * destruct (bstep_tick cfg st now order pops) as [[sx ox]|] eqn:Et.
+        -- inversion E1; subst.
+           destruct (bstep_tick_refines cfg st now order pops _ ox added Hw Hd Et) as [Hd2 _]. congruence.
+        -- inversion E1; subst. congruence.
+    + assert (Hstep : exists acts1, arun cfg (mkG st added None) acts1 =
+                                    Some (mkG st1 (added ++ changes (fed t1)) None, t1)).
+      { destruct e as [now m|now order pops]; simpl in E1.
+        - rewrite Hd in E1. destruct (bstep_msg cfg st now m) as [sx ox] eqn:Em. inversion E1; subst.
+          destruct (bstep_msg_refines cfg st now m st1 ox added Hw Hd Em Hd1) as [acts Ha].
+          exists acts. rewrite Ha. now rewrite fed_cons_feed, fed_outs.
+        - destruct (bstep_tick cfg st now order pops) as [[sx ox]|] eqn:Et.
+          + inversion E1; subst.
+            destruct (bstep_tick_refines cfg st now order pops st1 ox added Hw Hd Et) as [_ [acts Ha]].
+            exists acts. rewrite Ha. rewrite fed_outs. simpl. now rewrite app_nil_r.
+          + inversion E1; subst. exists []. simpl. now rewrite app_nil_r. }
+      destruct Hstep as [acts1 H1].
+      destruct (IH _ _ _ (added ++ changes (fed t1)) Hd1 E2) as (t0 & acts2 & g' & H2 & Ht).
+      exists (t1 ++ t0), (acts1 ++ acts2), g'. split; [exact (arun_app _ _ _ _ _ _ _ _ H1 H2)|].
+      destruct Ht as [->| ->]; [now left|right; now rewrite app_assoc].
+Qed.
+
+Lemma brun_trace cfg evs st t : workers_ok cfg -> brun cfg binit evs = (st, t) ->
+  exists t0, machine_trace cfg t0 /\ (t = t0 \/ t = t0 ++ [TOut OFatal]).
+Proof.
+  intros Hw H. destruct (brun_trace_gen cfg Hw evs binit st t [] eq_refl H) as (t0 & acts & g' & Ha & Ht).
+  exists t0. split; [exists acts, g'; exact Ha|exact Ht].
+Qed.
+
+Lemma dispatched_fatal t0 : dispatched (t0 ++ [TOut OFatal]) = dispatched t0.
+Proof. rewrite dispatched_app. simpl. now rewrite app_nil_r. Qed.
+Lemma fed_fatal t0 : fed (t0 ++ [TOut OFatal]) = fed t0.
+Proof. rewrite fed_app. simpl. now rewrite app_nil_r. Qed.
+
+(* --- safety properties of the trace, for EVERY run (also those that stop fatally) --- *)
+Lemma run_dispatched_limits_all cfg evs st t : workers_ok cfg -> kind_ok cfg ->
+  brun cfg binit evs = (st, t) ->
+  forall w b, In (w, b) (dispatched t) ->
+    is_empty b = false /\ b_kind b = c_kind cfg /\ batch_ok (c_limits cfg) b.
+Proof.
+  intros Hw Hk H w b Hin. destruct (brun_trace cfg evs st t Hw H) as (t0 & (acts & g & Ha) & Ht).
+  assert (Hin0 : In (w, b) (dispatched t0)) by (destruct Ht as [->| ->]; [assumption|now rewrite dispatched_fatal in Hin]).
+  destruct (struct_inv cfg acts _ _ Ha) as [_ Hdisp]. destruct (Hdisp w b Hin0) as (E1 & E2 & E3). auto.
+Qed.
+
+Lemma run_dispatched_kinesis_all L : within_aws L -> forall cfg meth evs st t,
+  workers_ok cfg -> c_kind cfg = BKinesis meth -> c_limits cfg = L ->
+  brun cfg binit evs = (st, t) ->
+  forall w b, In (w, b) (dispatched t) ->
+    b_items b <> [] /\ (N.of_nat (List.length (b_items b)) <= 500)%N /\
+    sum_N (map rsize (b_items b)) = b_bytes b /\ (sum_N (map rsize (b_items b)) <= 5 * 2^20)%N /\
+    Forall (fun r => (r_len r <= 2^20)%N) (b_items b).
+Proof.
+  intros HL cfg meth evs st t Hw Hk HLc H w b Hin.
+  assert (Hko : kind_ok cfg) by (unfold kind_ok; now rewrite Hk).
+  destruct (run_dispatched_limits_all cfg evs st t Hw Hko H w b Hin) as (E1 & E2 & E3).
+  unfold batch_ok in E3. rewrite E2, Hk, HLc in E3.
+  split; [unfold is_empty in E1; destruct (b_items b); [discriminate|discriminate]|].
+  exact (kinesis_ok_aws L b HL E3).
+Qed.
+
+Lemma run_partition_routing_all cfg evs st t : workers_ok cfg -> c_routing cfg = ByPartition ->
+  brun cfg binit evs = (st, t) ->
+  forall w b, In (w, b) (dispatched t) -> Some w = quick_hash (b_pkey b) (c_workers cfg).
+Proof.
+  intros Hw Hr H w b Hin. destruct (brun_trace cfg evs st t Hw H) as (t0 & (acts & g & Ha) & Ht).
+  assert (Hin0 : In (w, b) (dispatched t0)) by (destruct Ht as [->| ->]; [assumption|now rewrite dispatched_fatal in Hin]).
+  eapply partition_routing_inv; eauto.
+Qed.
+
+Lemma run_round_robin_all cfg evs st t : workers_ok cfg -> c_routing cfg = RoundRobin ->
+  brun cfg binit evs = (st, t) ->
+  map fst (dispatched t) = map (fun i => (N.of_nat i mod c_workers cfg)%N) (seq 0 (List.length (dispatched t))).
+Proof.
+  intros Hw Hr H. destruct (brun_trace cfg evs st t Hw H) as (t0 & (acts & g & Ha) & Ht).
+  destruct (round_robin_inv cfg acts _ _ Hw Hr Ha) as [_ E].
+  destruct Ht as [->| ->]; [assumption|now rewrite dispatched_fatal].
+Qed.
+
+Lemma fed_invariant cfg acts g t : arun cfg ginit acts = Some (g, t) -> fed_inv g t.
+Proof.
+  intros H. refine (arun_inv cfg fed_inv _ acts ginit [] g t _ H); [|reflexivity].
+  intros g0 t0 a g1 t1 Hf Hs. eapply fed_inv_step; eauto.
+Qed.
+
+Lemma machine_items cfg t0 : workers_ok cfg -> machine_trace cfg t0 ->
+  forall w b, In (w, b) (dispatched t0) ->
+    exists ms, sublist ms (fed t0) /\ b_items b = map (rec_of_kind (c_kind cfg)) ms /\
+               forall m, In m ms -> is_marker m = false /\ fate_of cfg m = FAccepted /\ m_pkey m = b_pkey b.
+Proof.
+  intros Hw (acts & g & Ha) w b Hin.
+  destruct (pk_invariant cfg acts _ _ Hw Ha) as (_ & _ & Hpk). specialize (Hpk (b_pkey b)).
+  pose proof (fed_invariant cfg acts _ _ Ha) as Hf. unfold fed_inv in Hf.
+  (* the items of b are a segment of the dispatched items of its key *)
+  assert (Hseg : exists pre post, disp_items (b_pkey b) t0 = pre ++ b_items b ++ post).
+  { unfold disp_items. induction (dispatched t0) as [|wb l IH]; [destruct Hin|]. simpl.
+    destruct Hin as [->|Hin].
+    - exists [], (flat_map (items_for (b_pkey b)) l). unfold items_for at 1. simpl. now rewrite String.eqb_refl.
+    - destruct (IH Hin) as (pre & post & E). exists (items_for (b_pkey b) wb ++ pre), post.
+      rewrite E. now rewrite app_assoc. }
+  destruct Hseg as (pre & post & Hseg). rewrite Hseg in Hpk.
+  (* split the accepted messages accordingly *)
+  assert (Hsplit : forall (l : list msg) (a c : list rec) (f : msg -> rec), a ++ c = map f l ->
+            exists la lc, l = la ++ lc /\ a = map f la /\ c = map f lc).
+  { clear. intros l a. revert l. induction a as [|x a IH]; intros l c f E.
+    - exists [], l. auto.
+    - destruct l as [|m l]; [discriminate|]. simpl in E. inversion E; subst.
+      destruct (IH l c f H1) as (la & lc & -> & -> & ->). exists (m :: la), lc. auto. }
+  rewrite <- !app_assoc in Hpk.
+  destruct (Hsplit _ _ _ _ Hpk) as (l1 & l2 & E12 & _ & E2).
+  destruct (Hsplit _ _ _ _ E2) as (ms & l3 & E23 & Ems & _).
+  exists ms. split; [|split; [exact Ems|]].
+  - eapply sublist_trans; [|apply (sublist_filter change (fed t0))]. fold (changes (fed t0)). rewrite Hf.
+    eapply sublist_trans; [|apply sublist_app_l].
+    eapply sublist_trans; [|apply (sublist_filter (accp cfg (b_pkey b)))]. rewrite E12, E23.
+    eapply sublist_trans; [apply sublist_app_l|apply sublist_app_r].
+  - intros m Hm.
+    assert (Hm' : In m (filter (accp cfg (b_pkey b)) (g_added g))).
+    { rewrite E12, E23. apply in_or_app. right. apply in_or_app. now left. }
+    apply filter_In in Hm'. destruct Hm' as [_ Hacc]. unfold accp, accepted, change in Hacc.
+    apply andb_prop in Hacc. destruct Hacc as [Hacc H3]. apply andb_prop in Hacc. destruct Hacc as [H1 H2].
+    apply negb_true_iff in H1. apply String.eqb_eq in H3. repeat split; auto.
+    destruct (fate_of cfg m); try discriminate; reflexivity.
+Qed.
+
+(* C06_homogeneous (dispatched part) and C05_in_batch for EVERY run *)
+Lemma run_items_all cfg evs st t : workers_ok cfg -> brun cfg binit evs = (st, t) ->
+  forall w b, In (w, b) (dispatched t) ->
+    exists ms, sublist ms (fed t) /\ b_items b = map (rec_of_kind (c_kind cfg)) ms /\
+               forall m, In m ms -> is_marker m = false /\ fate_of cfg m = FAccepted /\ m_pkey m = b_pkey b.
+Proof.
+  intros Hw H w b Hin. destruct (brun_trace cfg evs st t Hw H) as (t0 & Hm & Ht).
+  destruct Ht as [->| ->]; [exact (machine_items cfg t0 Hw Hm w b Hin)|].
+  rewrite dispatched_fatal in Hin. rewrite fed_fatal. exact (machine_items cfg t0 Hw Hm w b Hin).
+Qed.
+
+Lemma run_in_batch_all cfg evs st t : workers_ok cfg -> brun cfg binit evs = (st, t) ->
+  forall w b, In (w, b) (dispatched t) ->
+    sublist (b_items b) (map (rec_of_kind (c_kind cfg)) (fed t)) /\ sublist (ids b) (map m_id (fed t)).
+Proof.
+  intros Hw H w b Hin. destruct (run_items_all cfg evs st t Hw H w b Hin) as (ms & Hs & E & _).
+  split; [rewrite E; now apply sublist_map|].
+  unfold ids. rewrite E, map_map. rewrite (map_ext _ m_id (r_id_rec_of_kind (c_kind cfg))). now apply sublist_map.
+Qed.
+
+(* C01 (batcher half) for EVERY run *)
+Lemma run_dispatch_order_all cfg evs st t : workers_ok cfg -> brun cfg binit evs = (st, t) ->
+  forall t1 w b t2, t = t1 ++ TOut (OBatch w b) :: t2 ->
+    seen_outs t1 = seens_of (fed t1) /\
+    incl (ids b) (map m_id (changes (fed t1))) /\
+    (forall c, In c (fed t1) -> is_commit c = true ->
+       exists n, In (mkSeen (m_txn c) (m_key c) n (m_wal c)) (seen_outs t1)).
+Proof.
+  intros Hw H t1 w b t2 E. destruct (brun_trace cfg evs st t Hw H) as (t0 & (acts & g & Ha) & Ht).
+  destruct (dispatch_invariant cfg acts _ _ Hw Ha) as [_ Hall].
+  assert (Hall' : all_disp at_dispatch [] t).
+  { destruct Ht as [->| ->]; [assumption|]. apply all_disp_app. split; [assumption|]. simpl. auto. }
+  destruct (all_disp_split _ _ Hall' t1 w b t2 E) as [E1 E2].
+  split; [auto|]. split; [assumption|]. intros c Hc1 Hc2. rewrite <- E1. now apply seens_of_commit.
+Qed.
+
+Lemma run_open_homogeneous cfg evs st t : workers_ok cfg -> brun cfg binit evs = (st, t) -> dead st = false ->
+  forall p ob, In (p, ob) (open st) -> b_pkey (ob_batch ob) = p /\ b_kind (ob_batch ob) = c_kind cfg.
+Proof. intros Hw H Hd. exact (proj1 (run_homogeneous cfg evs st t Hw H Hd)). Qed.
+
+Lemma run_seen_announced cfg evs st t : workers_ok cfg -> brun cfg binit evs = (st, t) -> dead st = false ->
+  seen_outs t ++ seenl st = seens_of (fed t).
+Proof. intros Hw H Hd. exact (proj1 (run_seen_before_dispatch cfg evs st t Hw H Hd)). Qed.
